@@ -105,7 +105,7 @@ theorem unobserve_all_all {r : Reg Sub} (ok : RegOK r) (alive : Sub → Bool) (h
 
 /-! ### the remembered parents (flattened dict of dicts) -/
 
-theorem mem_insertAfterGroup (own : PRef → Nat) (o : Nat) (e x : PRef × Int) (ps : List (PRef × Int)) :
+theorem mem_insertAfterGroup (own : PRef → Nat) (o : Nat) (e x : PRef × V) (ps : List (PRef × V)) :
     x ∈ insertAfterGroup own o e ps ↔ x = e ∨ x ∈ ps := by
   induction ps with
   | nil => simp [insertAfterGroup]
@@ -134,7 +134,7 @@ theorem mem_insertAfterGroup (own : PRef → Nat) (o : Nat) (e x : PRef × Int) 
         · exact Or.inr (Or.inr h)
 
 /-- membership after `parents[owner][name] = value` -/
-theorem mem_insertParent (own : PRef → Nat) (r : PRef) (v : Int) (ps : List (PRef × Int)) (x : PRef × Int) :
+theorem mem_insertParent (own : PRef → Nat) (r : PRef) (v : V) (ps : List (PRef × V)) (x : PRef × V) :
     x ∈ insertParent own r v ps ↔ x = (r, v) ∨ (x ∈ ps ∧ x.1 ≠ r) := by
   unfold insertParent
   split
@@ -164,8 +164,8 @@ theorem mem_insertParent (own : PRef → Nat) (r : PRef) (v : Int) (ps : List (P
       · exact Or.inr h
 
 /-- if the remembered value of `r` (if any) is already `v`, the assignment just adds the pair -/
-theorem mem_insertParent_consistent (own : PRef → Nat) (r : PRef) (v : Int) (ps : List (PRef × Int))
-    (hc : ∀ e ∈ ps, e.1 = r → e.2 = v) (x : PRef × Int) :
+theorem mem_insertParent_consistent (own : PRef → Nat) (r : PRef) (v : V) (ps : List (PRef × V))
+    (hc : ∀ e ∈ ps, e.1 = r → e.2 = v) (x : PRef × V) :
     x ∈ insertParent own r v ps ↔ x = (r, v) ∨ x ∈ ps := by
   rw [mem_insertParent]
   constructor
@@ -184,23 +184,26 @@ theorem mem_insertParent_consistent (own : PRef → Nat) (r : PRef) (v : Int) (p
 
 /-- a function that only reads -/
 inductive Pure : Tree → Prop
-  | ret (v : Int) : Pure (.ret v)
-  | read (k : Key) (cont : Int → Tree) (h : ∀ x, Pure (cont x)) : Pure (.read k cont)
-  | readC (c : Nat) (cont : Int → Tree) (h : ∀ x, Pure (cont x)) : Pure (.readC c cont)
+  | ret (v : V) : Pure (.ret v)
+  | read (k : Key) (cont : V → Tree) (h : ∀ x, Pure (cont x)) : Pure (.read k cont)
+  | readC (c : Nat) (cont : V → Tree) (h : ∀ x, Pure (cont x)) : Pure (.readC c cont)
+  | fail : Pure .fail
 
 /-- every Computable the function may read was defined before `b` (has a smaller index) -/
 inductive Ranked (b : Nat) : Tree → Prop
-  | ret (v : Int) : Ranked b (.ret v)
-  | read (k : Key) (cont : Int → Tree) (h : ∀ x, Ranked b (cont x)) : Ranked b (.read k cont)
-  | readC (c : Nat) (cont : Int → Tree) (hc : c < b) (h : ∀ x, Ranked b (cont x)) : Ranked b (.readC c cont)
-  | write (k : Key) (v : Int) (t : Tree) (h : Ranked b t) : Ranked b (.write k v t)
+  | ret (v : V) : Ranked b (.ret v)
+  | read (k : Key) (cont : V → Tree) (h : ∀ x, Ranked b (cont x)) : Ranked b (.read k cont)
+  | readC (c : Nat) (cont : V → Tree) (hc : c < b) (h : ∀ x, Ranked b (cont x)) : Ranked b (.readC c cont)
+  | write (k : Key) (v : V) (t : Tree) (h : Ranked b t) : Ranked b (.write k v t)
+  | fail : Ranked b .fail
 
 /-- the keys a function reads as plain Observables satisfy `ok` (they are not Computable slots) -/
 inductive ObsKeys (ok : Key → Prop) : Tree → Prop
-  | ret (v : Int) : ObsKeys ok (.ret v)
-  | read (k : Key) (cont : Int → Tree) (hk : ok k) (h : ∀ x, ObsKeys ok (cont x)) : ObsKeys ok (.read k cont)
-  | readC (c : Nat) (cont : Int → Tree) (h : ∀ x, ObsKeys ok (cont x)) : ObsKeys ok (.readC c cont)
-  | write (k : Key) (v : Int) (t : Tree) (h : ObsKeys ok t) : ObsKeys ok (.write k v t)
+  | ret (v : V) : ObsKeys ok (.ret v)
+  | read (k : Key) (cont : V → Tree) (hk : ok k) (h : ∀ x, ObsKeys ok (cont x)) : ObsKeys ok (.read k cont)
+  | readC (c : Nat) (cont : V → Tree) (h : ∀ x, ObsKeys ok (cont x)) : ObsKeys ok (.readC c cont)
+  | write (k : Key) (v : V) (t : Tree) (h : ObsKeys ok t) : ObsKeys ok (.write k v t)
+  | fail : ObsKeys ok .fail
 
 /-- `k` is the attribute slot of some defined Computable -/
 def St.isSlot (s : St) (k : Key) : Prop := ∃ c x, s.comps c = some x ∧ (x.owner, x.name) = k
@@ -210,7 +213,6 @@ def St.kindAt (s : St) (k : Key) : Option Kind :=
   ((s.regs k.1).decls.find? (fun d => d.name == k.2)).map (·.kind)
 
 structure Stat (s : St) : Prop where
-  progs : ∀ h, s.progs h = []
   regs : ∀ o, RegOK (s.regs o)
   pure : ∀ c x, s.comps c = some x → Pure x.tree
   ranked : ∀ c x, s.comps c = some x → Ranked c x.tree
@@ -276,6 +278,7 @@ theorem ObsKeys.mono {ok ok' : Key → Prop} (h : ∀ k, ok k → ok' k) {t : Tr
   | read k cont hk _ ih => exact .read k cont (h k hk) ih
   | readC c cont _ ih => exact .readC c cont ih
   | write k v t _ ih => exact .write k v t ih
+  | fail => exact .fail
 
 theorem StaticEq.kindAt {s s' : St} (a : StaticEq s s') (k : Key) : s'.kindAt k = s.kindAt k := by
   simp [St.kindAt, a.decls]
@@ -288,7 +291,7 @@ theorem Stat.obsKeys {s : St} (w : Stat s) (c : Nat) (x : Comp) (hx : s.comps c 
   rw [w.slotKind c' x' hx'] at hk; cases hk
 
 theorem Stat.of_staticEq {s s' : St} (w : Stat s) (a : StaticEq s s') : Stat s' := by
-  refine ⟨fun h => by rw [a.progs]; exact w.progs h, fun o => RegOK.of_decls (a.decls o) (w.regs o), ?_, ?_, ?_, ?_, ?_⟩
+  refine ⟨fun o => RegOK.of_decls (a.decls o) (w.regs o), ?_, ?_, ?_, ?_, ?_⟩
   · intro c x' h'
     obtain ⟨x, h, _, _, ht⟩ := a.defined' h'
     rw [ht]; exact w.pure c x h
@@ -331,16 +334,30 @@ theorem StaticEq.of_setReg {s : St} {o : Nat} {r : Reg Sub} (hd : r.decls = (s.r
 /-! ### the dynamic invariant -/
 
 /-- following the function along the listed (reference, value) reads leads to `ret v` -/
-inductive PathR : Tree → List (PRef × Int) → Int → Prop
-  | ret (v : Int) : PathR (.ret v) [] v
-  | read (k : Key) (cont : Int → Tree) (x : Int) (ps : List (PRef × Int)) (v : Int) (h : PathR (cont x) ps v) :
+inductive PathR : Tree → List (PRef × V) → V → Prop
+  | ret (v : V) : PathR (.ret v) [] v
+  | read (k : Key) (cont : V → Tree) (x : V) (ps : List (PRef × V)) (v : V) (h : PathR (cont x) ps v) :
       PathR (.read k cont) ((.obs k, x) :: ps) v
-  | readC (c : Nat) (cont : Int → Tree) (x : Int) (ps : List (PRef × Int)) (v : Int) (h : PathR (cont x) ps v) :
+  | readC (c : Nat) (cont : V → Tree) (x : V) (ps : List (PRef × V)) (v : V) (h : PathR (cont x) ps v) :
       PathR (.readC c cont) ((.comp c, x) :: ps) v
+
+/-- the listed (reference, value) reads are an initial part of some way through the function -/
+inductive Prefix : Tree → List (PRef × V) → Prop
+  | nil (t : Tree) : Prefix t []
+  | read (k : Key) (cont : V → Tree) (x : V) (ps : List (PRef × V)) (h : Prefix (cont x) ps) :
+      Prefix (.read k cont) ((.obs k, x) :: ps)
+  | readC (c : Nat) (cont : V → Tree) (x : V) (ps : List (PRef × V)) (h : Prefix (cont x) ps) :
+      Prefix (.readC c cont) ((.comp c, x) :: ps)
+
+theorem PathR.prefix {t : Tree} {ps : List (PRef × V)} {v : V} (h : PathR t ps v) : Prefix t ps := by
+  induction h with
+  | ret v => exact .nil _
+  | read k cont x ps v _ ih => exact .read k cont x ps ih
+  | readC c cont x ps v _ ih => exact .readC c cont x ps ih
 
 /-- the remembered value `v` of `p` is the present one (`P` = Computeds that were just marked dirty and whose
     own subscribers have not all been notified yet) -/
-def Current (P : Nat → Prop) (s : St) : PRef → Int → Prop
+def Current (P : Nat → Prop) (s : St) : PRef → V → Prop
   | .obs k, v => s.store k = v
   | .comp c, v => ∃ y, s.comps c = some y ∧ y.value = some v ∧ (y.dirty = false ∨ P c)
 
@@ -348,25 +365,30 @@ def Current (P : Nat → Prop) (s : St) : PRef → Int → Prop
 def Subd (s : St) (c : Nat) (p : PRef) : Prop :=
   ∃ k, s.keyOf p = some k ∧ k.2 ∈ (s.regs k.1).names ∧ Sub.dirty c ∈ (s.regs k.1).subs k.2 .change
 
+/-- user handlers that read Computables while notified (`progs h ≠ []`) are subscribed to plain Observables only -/
+def Inv.UserOK (s : St) : Prop :=
+  ∀ o n t h, Sub.user h ∈ (s.regs o).subs n t → s.progs h = [] ∨ s.kindAt (o, n) = some .obs
+
 /-- `S` = the Computeds that are being evaluated right now (on the Python call stack) -/
 structure Inv (S P : Nat → Prop) (s : St) : Prop where
   stackDirty : ∀ c, S c → ∃ x, s.comps c = some x ∧ x.dirty = true
   curStack : ∀ p, s.cur = some p → S p
   evald : ∀ c x, s.comps c = some x → ¬ S c →
-    (x.first = true → x.dirty = true ∧ x.parents = []) ∧
+    (x.first = true → x.dirty = true ∧ ∃ ps, Prefix x.tree ps ∧ ∀ e, e ∈ ps ↔ e ∈ x.parents) ∧
     (x.first = false → ∃ v ps, x.value = some v ∧ PathR x.tree ps v ∧ ∀ e, e ∈ ps ↔ e ∈ x.parents)
   parents : ∀ c x, s.comps c = some x → ∀ p v, (p, v) ∈ x.parents →
     (∀ c', p = .comp c' → c' < c) ∧ (∀ k, p = .obs k → ¬ s.isSlot k) ∧ Subd s c p
   subsOf : ∀ o n t c, Sub.dirty c ∈ (s.regs o).subs n t →
     t = .change ∧ ∃ x, s.comps c = some x ∧ ∃ p v, (p, v) ∈ x.parents ∧ s.keyOf p = some (o, n)
   current : ∀ c x, s.comps c = some x → x.dirty = false → ∀ p v, (p, v) ∈ x.parents → Current P s p v
+  userOK : Inv.UserOK s
 
 def NoP : Nat → Prop := fun _ => False
 
 theorem Current.of_eq {P : Nat → Prop} {s s' : St} (hst : s'.store = s.store)
     (hc : ∀ c y, s.comps c = some y → ∀ v, y.value = some v → (y.dirty = false ∨ P c) →
       ∃ y', s'.comps c = some y' ∧ y'.value = some v ∧ (y'.dirty = false ∨ P c))
-    {p : PRef} {v : Int} (h : Current P s p v) : Current P s' p v := by
+    {p : PRef} {v : V} (h : Current P s p v) : Current P s' p v := by
   cases p with
   | obs k => simpa [Current, hst] using h
   | comp c =>
@@ -377,7 +399,7 @@ theorem Current.of_eq {P : Nat → Prop} {s s' : St} (hst : s'.store = s.store)
 theorem Inv.update_comp {S P : Nat → Prop} {s : St} (inv : Inv S P s) {c : Nat} {x x' : Comp}
     (hx : s.comps c = some x) (ho : x'.owner = x.owner) (hn : x'.name = x.name)
     (hS : S c → x'.dirty = true)
-    (hev : ¬ S c → (x'.first = true → x'.dirty = true ∧ x'.parents = []) ∧
+    (hev : ¬ S c → (x'.first = true → x'.dirty = true ∧ ∃ ps, Prefix x'.tree ps ∧ ∀ e, e ∈ ps ↔ e ∈ x'.parents) ∧
       (x'.first = false → ∃ v ps, x'.value = some v ∧ PathR x'.tree ps v ∧ ∀ e, e ∈ ps ↔ e ∈ x'.parents))
     (ht : x'.tree = x.tree)
     (hpar : ∀ p v, (p, v) ∈ x'.parents → (∀ c', p = .comp c' → c' < c) ∧ (∀ k, p = .obs k → ¬ s.isSlot k) ∧ Subd s c p)
@@ -407,7 +429,7 @@ theorem Inv.update_comp {S P : Nat → Prop} {s : St} (inv : Inv S P s) {c : Nat
       rw [hx] at hy; cases hy
       exact ⟨x', setComp_same s c' x', hval w hw hd⟩
     · exact ⟨y, by rw [setComp_ne s x' h']; exact hy, hw, hd⟩
-  refine ⟨?_, inv.curStack, ?_, ?_, ?_, ?_⟩
+  refine ⟨?_, inv.curStack, ?_, ?_, ?_, ?_, inv.userOK⟩
   · intro q hq
     by_cases h : q = c
     · subst h; exact ⟨x', setComp_same s q x', hS hq⟩
@@ -445,10 +467,10 @@ theorem Inv.update_comp {S P : Nat → Prop} {s : St} (inv : Inv S P s) {c : Nat
 
 /-- fields the invariant does not look at (`cur` only has to point into the stack) -/
 theorem Inv.congr {S P : Nat → Prop} {s s' : St} (inv : Inv S P s) (hc : s'.comps = s.comps) (hr : s'.regs = s.regs)
-    (hs : s'.store = s.store) (hcur : ∀ p, s'.cur = some p → S p) : Inv S P s' := by
+    (hs : s'.store = s.store) (hp : s'.progs = s.progs) (hcur : ∀ p, s'.cur = some p → S p) : Inv S P s' := by
   have hk : s'.keyOf = s.keyOf := by funext p; cases p <;> simp [St.keyOf, hc]
   have hsl : ∀ k, s'.isSlot k ↔ s.isSlot k := fun k => by simp [St.isSlot, hc]
-  refine ⟨?_, hcur, ?_, ?_, ?_, ?_⟩
+  refine ⟨?_, hcur, ?_, ?_, ?_, ?_, ?_⟩
   · simpa [hc] using inv.stackDirty
   · simpa [hc] using inv.evald
   · intro c x hx p v hp
@@ -465,10 +487,14 @@ theorem Inv.congr {S P : Nat → Prop} {s s' : St} (inv : Inv S P s) (hc : s'.co
     cases p with
     | obs k => simpa [Current, hs] using this
     | comp c' => simpa [Current, hc] using this
+  · intro o n t h hm
+    rw [hr] at hm
+    have := inv.userOK o n t h hm
+    simpa [hp, St.kindAt, hr] using this
 
 /-- `_add_parent` called by the evaluating Computed `p` -/
 theorem addParent_spec {S P : Nat → Prop} {s s' : St} (w : Stat s) (inv : Inv S P s) {p : Nat} {x : Comp}
-    (hS : S p) (hx : s.comps p = some x) {r : PRef} {v : Int} {u : Int}
+    (hS : S p) (hx : s.comps p = some x) {r : PRef} {v : V} {u : V}
     (hrank : ∀ c', r = .comp c' → c' < p) (hobs : ∀ k, r = .obs k → ¬ s.isSlot k)
     (h : addParent s p r v = (s', .ok u)) :
     Inv S P s' ∧ StaticEq s s' ∧ s'.store = s.store ∧ s'.cur = s.cur ∧ s'.dead = s.dead ∧
@@ -508,7 +534,20 @@ theorem addParent_spec {S P : Nat → Prop} {s s' : St} (w : Stat s) (inv : Inv 
           Subd ((s.setReg o reg).setComp p { x with parents := insertParent s.ownerOf r v x.parents }) q p0 := by
         intro q p0 ⟨k, h1, h2, h3⟩
         exact ⟨k, by rw [hkey]; exact h1, by simpa [hnames] using h2, by simpa using hmem _ _ _ _ h3⟩
-      refine ⟨⟨?_, inv.curStack, ?_, ?_, ?_, ?_⟩, se, rfl, rfl, rfl, fun q hq => by simp [setComp_ne _ _ hq], by simp⟩
+      have huser : Inv.UserOK ((s.setReg o reg).setComp p { x with parents := insertParent s.ownerOf r v x.parents }) := by
+        intro o' n' t' h' hm
+        simp only [setComp_regs] at hm
+        have hm0 : Sub.user h' ∈ (s.regs o').subs n' t' := by
+          by_cases h'' : o' = o
+          · subst h''
+            rw [setReg_same, hs] at hm
+            split at hm
+            · simpa using hm
+            · exact hm
+          · rw [setReg_ne s reg h''] at hm; exact hm
+        have := inv.userOK o' n' t' h' hm0
+        rwa [se.kindAt]
+      refine ⟨⟨?_, inv.curStack, ?_, ?_, ?_, ?_, huser⟩, se, rfl, rfl, rfl, fun q hq => by simp [setComp_ne _ _ hq], by simp⟩
       · intro q hq
         by_cases h' : q = p
         · subst h'; exact ⟨_, setComp_same _ _ _, hxd⟩
@@ -577,7 +616,7 @@ theorem addParent_spec {S P : Nat → Prop} {s s' : St} (w : Stat s) (inv : Inv 
 
 theorem Inv.push {S P : Nat → Prop} {s : St} (inv : Inv S P s) {c : Nat} {x : Comp} (hx : s.comps c = some x)
     (hd : x.dirty = true) : Inv (fun q => S q ∨ q = c) P s := by
-  refine ⟨?_, fun p hp => Or.inl (inv.curStack p hp), ?_, inv.parents, inv.subsOf, inv.current⟩
+  refine ⟨?_, fun p hp => Or.inl (inv.curStack p hp), ?_, inv.parents, inv.subsOf, inv.current, inv.userOK⟩
   · rintro q (hq | rfl)
     · exact inv.stackDirty q hq
     · exact ⟨x, hx, hd⟩
@@ -596,8 +635,9 @@ theorem removeFold (c : Nat) (L : List Nat) (s : St) (hreg : ∀ o, RegOK (s.reg
       | .error _ => s) s
     s'.comps = s.comps ∧ s'.store = s.store ∧ s'.cur = s.cur ∧ s'.dead = s.dead ∧ s'.progs = s.progs ∧
     (∀ o, (s'.regs o).decls = (s.regs o).decls) ∧
-    ∀ o n t q, Sub.dirty q ∈ (s'.regs o).subs n t ↔
-      Sub.dirty q ∈ (s.regs o).subs n t ∧ ¬ (o ∈ L ∧ n ∈ (s.regs o).names ∧ t = .change ∧ q = c) := by
+    (∀ o n t q, Sub.dirty q ∈ (s'.regs o).subs n t ↔
+      Sub.dirty q ∈ (s.regs o).subs n t ∧ ¬ (o ∈ L ∧ n ∈ (s.regs o).names ∧ t = .change ∧ q = c)) ∧
+    ∀ o n t h, Sub.user h ∈ (s'.regs o).subs n t → Sub.user h ∈ (s.regs o).subs n t := by
   induction L generalizing s with
   | nil => simp
   | cons o L ih =>
@@ -609,8 +649,18 @@ theorem removeFold (c : Nat) (L : List Nat) (s : St) (hreg : ∀ o, RegOK (s.reg
       by_cases h : o' = o
       · subst h; rw [setReg_same]; exact RegOK.of_decls hdecl (hreg o')
       · rw [setReg_ne s reg h]; exact hreg o'
-    obtain ⟨h1, h2, h3, h4, h5, h6, h7⟩ := ih (s.setReg o reg) hreg'
-    refine ⟨h1, h2, h3, h4, h5, ?_, ?_⟩
+    obtain ⟨h1, h2, h3, h4, h5, h6, h7, h8⟩ := ih (s.setReg o reg) hreg'
+    refine ⟨h1, h2, h3, h4, h5, ?_, ?_, ?_⟩
+    rotate_left 2
+    · intro o' n t h hm
+      have hm' := h8 o' n t h hm
+      by_cases ho : o' = o
+      · subst ho
+        rw [setReg_same, hs] at hm'
+        split at hm'
+        · exact (List.mem_filter.mp hm').1
+        · exact hm'
+      · rw [setReg_ne s reg ho] at hm'; exact hm'
     · intro o'
       rw [h6 o']
       by_cases h : o' = o
@@ -649,8 +699,8 @@ theorem removeParents_spec {S P : Nat → Prop} {s : St} (w : Stat s) (inv : Inv
     (removeParents s c).comps c = some { x with parents := [] } := by
   unfold removeParents
   simp only [hx]
-  obtain ⟨h1, h2, h3, h4, h5, h6, h7⟩ := removeFold c (parentOwners s x.parents) s w.regs
-  generalize (parentOwners s x.parents).foldl _ s = s1 at h1 h2 h3 h4 h5 h6 h7
+  obtain ⟨h1, h2, h3, h4, h5, h6, h7, h8⟩ := removeFold c (parentOwners s x.parents) s w.regs
+  generalize (parentOwners s x.parents).foldl _ s = s1 at h1 h2 h3 h4 h5 h6 h7 h8
   have hx1 : s1.comps c = some x := by rw [h1]; exact hx
   have se1 : StaticEq s s1 := ⟨h5, h6, fun q => by rw [h1]; exact (StaticEq.refl s).comps q⟩
   have se : StaticEq s (s1.setComp c { x with parents := [] }) :=
@@ -680,7 +730,11 @@ theorem removeParents_spec {S P : Nat → Prop} {s : St} (w : Stat s) (inv : Inv
   have hsubd : ∀ q p0, q ≠ c → Subd s q p0 → Subd (s1.setComp c { x with parents := [] }) q p0 := by
     intro q p0 hq ⟨k, g1, g2, g3⟩
     exact ⟨k, by rw [hkey]; exact g1, by simpa [hnames] using g2, by simpa using (hkeep _ _ _ q hq).mpr g3⟩
-  refine ⟨⟨?_, ?_, ?_, ?_, ?_, ?_⟩, se, h2, h3, h4, fun q hq => by rw [setComp_ne _ _ hq, h1], by simp⟩
+  have huser : Inv.UserOK (s1.setComp c { x with parents := [] }) := by
+    intro o' n' t' h' hm
+    have := inv.userOK o' n' t' h' (h8 o' n' t' h' hm)
+    rwa [se.kindAt, show (s1.setComp c { x with parents := [] }).progs = s.progs from h5]
+  refine ⟨⟨?_, ?_, ?_, ?_, ?_, ?_, huser⟩, se, h2, h3, h4, fun q hq => by rw [setComp_ne _ _ hq, h1], by simp⟩
   · intro q hq
     by_cases h : q = c
     · subst h; exact ⟨_, setComp_same _ _ _, hxd⟩
@@ -718,10 +772,11 @@ theorem removeParents_spec {S P : Nat → Prop} {s : St} (w : Stat s) (inv : Inv
 /-- the invariant only looks at the `_set_dirty` entries of the registry -/
 theorem Inv.congr_regs {S P : Nat → Prop} {s s' : St} (inv : Inv S P s) (hc : s'.comps = s.comps)
     (hs : s'.store = s.store) (hcur : s'.cur = s.cur) (hn : ∀ o, (s'.regs o).names = (s.regs o).names)
-    (hm : ∀ o n t q, Sub.dirty q ∈ (s'.regs o).subs n t ↔ Sub.dirty q ∈ (s.regs o).subs n t) : Inv S P s' := by
+    (hm : ∀ o n t q, Sub.dirty q ∈ (s'.regs o).subs n t ↔ Sub.dirty q ∈ (s.regs o).subs n t)
+    (hu : Inv.UserOK s') : Inv S P s' := by
   have hk : s'.keyOf = s.keyOf := by funext p; cases p <;> simp [St.keyOf, hc]
   have hsl : ∀ k, s'.isSlot k ↔ s.isSlot k := fun k => by simp [St.isSlot, hc]
-  refine ⟨?_, fun p hp => inv.curStack p (by rw [← hcur]; exact hp), ?_, ?_, ?_, ?_⟩
+  refine ⟨?_, fun p hp => inv.curStack p (by rw [← hcur]; exact hp), ?_, ?_, ?_, ?_, hu⟩
   · simpa [hc] using inv.stackDirty
   · simpa [hc] using inv.evald
   · intro c x hx p v hp
@@ -738,50 +793,93 @@ theorem Inv.congr_regs {S P : Nat → Prop} {s s' : St} (inv : Inv S P s) (hc : 
     | obs k => simpa [Current, hs] using this
     | comp c' => simpa [Current, hc] using this
 
-/-- a notification none of whose `_set_dirty` subscribers is clean: only user handlers are called (they
-    record), dead references are pruned -/
-theorem notifyLoop_quiet (rec : Rec) (k : Key) (old new : Option Int) (xs : List Sub) :
-    ∀ (act : List Sub) (s : St), (∀ h, s.progs h = []) →
+theorem mem_filter_isDep_dirty (c : Nat) (l : List Sub) : Sub.dirty c ∈ l.filter Sub.isDep ↔ Sub.dirty c ∈ l := by
+  simp [List.mem_filter, Sub.isDep]
+
+theorem mem_filter_isDep_user (h : Nat) (l : List Sub) : Sub.user h ∉ l.filter Sub.isDep := by
+  simp [List.mem_filter, Sub.isDep]
+
+theorem mem_filter_notDep_user (h : Nat) (l : List Sub) :
+    Sub.user h ∈ l.filter (fun x => !x.isDep) ↔ Sub.user h ∈ l := by
+  simp [List.mem_filter, Sub.isDep]
+
+theorem mem_filter_notDep_dirty (c : Nat) (l : List Sub) : Sub.dirty c ∉ l.filter (fun x => !x.isDep) := by
+  simp [List.mem_filter, Sub.isDep]
+
+/-- pruning the dead references of one list keeps `UserOK` -/
+theorem Inv.UserOK.prune {s : St} (hu : Inv.UserOK s) (k : Key) :
+    Inv.UserOK (s.setReg k.1 ((s.regs k.1).setSubs k.2 .change (((s.regs k.1).subs k.2 .change).filter s.alive))) := by
+  intro o n t h hm
+  have hm0 : Sub.user h ∈ (s.regs o).subs n t := by
+    by_cases ho : o = k.1
+    · subst ho
+      simp only [setReg_same, Reg.setSubs] at hm
+      split at hm
+      · rename_i hc
+        obtain ⟨rfl, rfl⟩ := hc
+        exact (List.mem_filter.mp hm).1
+      · exact hm
+    · rw [setReg_ne _ _ ho] at hm; exact hm
+  have := hu o n t h hm0
+  have hk : (s.setReg k.1 ((s.regs k.1).setSubs k.2 .change (((s.regs k.1).subs k.2 .change).filter s.alive))).kindAt (o, n) =
+      s.kindAt (o, n) := by
+    unfold St.kindAt
+    by_cases ho : o = k.1
+    · subst ho; simp [Reg.setSubs]
+    · simp [St.setReg, ho]
+  rw [hk]; exact this
+
+/-- a notification none of whose `_set_dirty` subscribers is clean and all of whose user handlers are passive: the user
+    handlers are called (they record), nothing else happens -/
+theorem notifyLoop_quiet (rec : Rec) (k : Key) (old new : V) (xs : List Sub) :
+    ∀ (s : St), (∀ h, Sub.user h ∈ xs → s.progs h = []) →
     (∀ c, Sub.dirty c ∈ xs → ∃ x, s.comps c = some x ∧ x.dirty = true) →
-    ∃ lg, notifyLoop rec k old new xs act s = some ({ s with log := s.log ++ lg }, .ok (act ++ xs.filter s.alive)) := by
+    ∃ lg, notifyLoop rec k old new xs s = some ({ s with log := s.log ++ lg }, .ok ()) := by
   induction xs with
-  | nil => intro act s _ _; exact ⟨[], by simp [notifyLoop]⟩
+  | nil => intro s _ _; exact ⟨[], by simp [notifyLoop]⟩
   | cons x xs ih =>
-    intro act s hp hq
+    intro s hp hq
     unfold notifyLoop
-    by_cases hal : s.alive x = true
-    · simp only [hal, Bool.not_true, Bool.false_eq_true, if_false]
+    by_cases hg : (!s.alive x || !(((s.regs k.1).subs k.2 .change).contains x)) = true
+    · rw [if_pos hg]
+      exact ih s (fun h hh => hp h (by simp [hh])) (fun c' hc' => hq c' (by simp [hc']))
+    · rw [if_neg hg]
       cases x with
       | dirty c =>
         obtain ⟨y, hy, hd⟩ := hq c (by simp)
         simp only [hy, hd, if_true]
-        obtain ⟨lg, h⟩ := ih (act ++ [Sub.dirty c]) s hp (fun c' hc' => hq c' (by simp [hc']))
-        refine ⟨lg, ?_⟩
-        rw [h]; simp [hal]
+        exact ih s (fun h hh => hp h (by simp [hh])) (fun c' hc' => hq c' (by simp [hc']))
       | user h =>
-        simp only [hp h, readAll]
-        obtain ⟨lg, hh⟩ := ih (act ++ [Sub.user h]) { s with log := s.log ++ [⟨h, k.1, k.2, old, new⟩] } hp
-          (fun c' hc' => hq c' (by simp [hc']))
+        simp only [hp h (by simp), readAll]
+        obtain ⟨lg, hh⟩ := ih { s with log := s.log ++ [⟨h, k.1, k.2, old, new⟩] }
+          (fun h' hh' => hp h' (by simp [hh'])) (fun c' hc' => hq c' (by simp [hc']))
         refine ⟨⟨h, k.1, k.2, old, new⟩ :: lg, ?_⟩
         rw [hh]
-        have : St.alive { s with log := s.log ++ [⟨h, k.1, k.2, old, new⟩] } = s.alive := rfl
-        simp [hal, this]
-    · simp only [Bool.not_eq_true] at hal
-      simp only [hal, Bool.not_false, if_true]
-      obtain ⟨lg, h⟩ := ih act s hp (fun c' hc' => hq c' (by simp [hc']))
-      refine ⟨lg, ?_⟩
-      rw [h]; simp [hal]
+        simp
 
-theorem notifyT_quiet {S P : Nat → Prop} (rec : Rec) (k : Key) (old new : Option Int) {s : St} (w : Stat s)
-    (inv : Inv S P s)
+/-- … for the `change` signal of a Computable (a slot): its user handlers are passive (`Inv.userOK`) -/
+theorem notifyT_quiet {S P : Nat → Prop} (rec : Rec) (k : Key) (old new : V) {s : St} (w : Stat s)
+    (inv : Inv S P s) (hk : s.kindAt k = some .comp)
     (hq : ∀ c, Sub.dirty c ∈ (s.regs k.1).subs k.2 .change → ∃ x, s.comps c = some x ∧ x.dirty = true) :
-    ∃ s', notifyT rec k old new s = some (s', .ok 0) ∧ Inv S P s' ∧ StaticEq s s' ∧ s'.comps = s.comps ∧
+    ∃ s', notifyT rec k old new s = some (s', .ok none) ∧ Inv S P s' ∧ StaticEq s s' ∧ s'.comps = s.comps ∧
       s'.store = s.store ∧ s'.cur = s.cur ∧ s'.dead = s.dead := by
-  obtain ⟨lg, h⟩ := notifyLoop_quiet rec k old new ((s.regs k.1).subs k.2 .change) [] s w.progs hq
+  have hpass : ∀ h, Sub.user h ∈ (s.regs k.1).subs k.2 .change → s.progs h = [] := by
+    intro h hm
+    rcases inv.userOK k.1 k.2 .change h hm with hp | hp
+    · exact hp
+    · rw [hk] at hp; cases hp
+  obtain ⟨lg1, h1⟩ := notifyLoop_quiet rec k old new (((s.regs k.1).subs k.2 .change).filter Sub.isDep) s
+    (fun h hh => absurd hh (mem_filter_isDep_user h _))
+    (fun c hc => hq c ((mem_filter_isDep_dirty c _).mp hc))
+  obtain ⟨lg2, h2⟩ := notifyLoop_quiet rec k old new (((s.regs k.1).subs k.2 .change).filter fun x => !x.isDep)
+    { s with log := s.log ++ lg1 }
+    (fun h hh => hpass h ((mem_filter_notDep_user h _).mp hh))
+    (fun c hc => absurd hc (mem_filter_notDep_dirty c _))
   unfold notifyT
-  rw [h]
+  simp only [h1, h2]
   refine ⟨_, rfl, ?_, ?_, rfl, rfl, rfl, rfl⟩
-  · refine inv.congr_regs rfl rfl rfl ?_ ?_
+  · have invl : Inv S P { s with log := s.log ++ lg1 ++ lg2 } := inv.congr rfl rfl rfl rfl inv.curStack
+    refine invl.congr_regs rfl rfl rfl ?_ ?_ (invl.userOK.prune k)
     · intro o
       by_cases ho : o = k.1
       · subst ho; simp [Reg.names]
@@ -792,7 +890,7 @@ theorem notifyT_quiet {S P : Nat → Prop} (rec : Rec) (k : Key) (old new : Opti
         simp only [setReg_same, Reg.setSubs]
         by_cases hnt : n = k.2 ∧ t = .change
         · obtain ⟨rfl, rfl⟩ := hnt
-          simp [List.mem_filter]
+          simp [List.mem_filter, St.alive]
         · simp [hnt]
       · simp [St.setReg, ho]
   · refine ⟨rfl, fun o => ?_, fun c => (StaticEq.refl s).comps c⟩
@@ -801,50 +899,211 @@ theorem notifyT_quiet {S P : Nat → Prop} (rec : Rec) (k : Key) (old new : Opti
     · simp [St.setReg, ho]
 
 
-theorem addParent_not_noneVal {s s' : St} (w : ∀ o, RegOK (s.regs o)) {p : Nat} {r : PRef} {v : Int} {e : Err}
-    (h : addParent s p r v = (s', .err e)) : R.err e ≠ .err .noneVal := by
+/-- a declared attribute is a name of its owner's registry -/
+theorem kindAt_names {s : St} {k : Key} {kd : Kind} (h : s.kindAt k = some kd) : k.2 ∈ (s.regs k.1).names := by
+  unfold St.kindAt at h
+  cases hf : (s.regs k.1).decls.find? (fun d => d.name == k.2) with
+  | none => simp [hf] at h
+  | some d =>
+    have hd := List.mem_of_find?_eq_some hf
+    have hn : d.name = k.2 := by simpa using List.find?_some hf
+    unfold Reg.names; exact List.mem_map.mpr ⟨d, hd, hn⟩
+
+/-- `_add_parent` on a declared attribute, called by a Computed that exists, does not raise -/
+theorem addParent_ok {s : St} (w : Stat s) {p : Nat} {x : Comp} (hx : s.comps p = some x) {r : PRef} {v : V} {k : Key}
+    (hk : s.keyOf r = some k) (hn : k.2 ∈ (s.regs k.1).names) {s' : St} {e : Err}
+    (h : addParent s p r v = (s', .err e)) : False := by
   unfold addParent at h
-  cases hk : s.keyOf r with
-  | none =>
-    simp only [hk] at h
-    injection h with _ h; injection h with h; subst h; simp
-  | some k =>
-    obtain ⟨o, n⟩ := k
-    cases hx : s.comps p with
-    | none =>
-      simp only [hk, hx] at h
-      injection h with _ h; injection h with h; subst h; simp
-    | some x =>
-      simp only [hk, hx] at h
-      rcases observe_one_all (w o) n (Sub.dirty p) with ⟨_, reg, ho, _⟩ | ⟨_, ho⟩
-      · simp only [ho] at h; injection h with _ h; cases h
-      · simp only [ho] at h
-        injection h with _ h; injection h with h; subst h; simp
+  obtain ⟨o, n⟩ := k
+  simp only [hk, hx] at h
+  rcases observe_one_all (w.regs o) n (Sub.dirty p) with ⟨_, reg, ho, _⟩ | ⟨hnn, _⟩
+  · simp only [ho] at h; injection h with _ h; cases h
+  · exact hnn hn
 
-/-- the remembered value differs from the present one (for a Computable: from its up-to-date value) -/
-def Stale (s : St) : PRef × Int → Prop
+/-! ### what a function returns "if evaluated right now" -/
+
+/-- the denotation of a pure function in state `s`: Observables are looked up in the store, Computables are
+    evaluated by running *their* function (not by looking at any cache) -/
+inductive Den (s : St) : Tree → V → Prop
+  | ret (v : V) : Den s (.ret v) v
+  | read (k : Key) (cont : V → Tree) (v : V) (h : Den s (cont (s.store k)) v) : Den s (.read k cont) v
+  | readC (c : Nat) (cont : V → Tree) (x : Comp) (a v : V) (hx : s.comps c = some x) (ha : Den s x.tree a)
+      (h : Den s (cont a) v) : Den s (.readC c cont) v
+
+/-- … and "the function would raise if evaluated right now": it arrives at a `fail` node, or at the read of a
+    Computable whose function would raise -/
+inductive DenFail (s : St) : Tree → Prop
+  | fail : DenFail s .fail
+  | read (k : Key) (cont : V → Tree) (h : DenFail s (cont (s.store k))) : DenFail s (.read k cont)
+  | readCFail (c : Nat) (cont : V → Tree) (x : Comp) (hx : s.comps c = some x) (h : DenFail s x.tree) :
+      DenFail s (.readC c cont)
+  | readC (c : Nat) (cont : V → Tree) (x : Comp) (a : V) (hx : s.comps c = some x) (ha : Den s x.tree a)
+      (h : DenFail s (cont a)) : DenFail s (.readC c cont)
+  | readCUndef (c : Nat) (cont : V → Tree) (hx : s.comps c = none) : DenFail s (.readC c cont)
+
+/-- both only look at the Observables' values and at the functions -/
+theorem Den.congr {s s' : St} (hst : s'.store = s.store) (hse : StaticEq s s') {t : Tree} {v : V} (h : Den s t v) :
+    Den s' t v := by
+  induction h with
+  | ret v => exact .ret v
+  | read k cont v _ ih => refine .read k cont v ?_; rw [hst]; exact ih
+  | readC c cont x a v hx _ _ iha ih =>
+    obtain ⟨x', hx', _, _, ht⟩ := hse.defined hx
+    exact .readC c cont x' a v hx' (by rw [ht]; exact iha) ih
+
+theorem DenFail.congr {s s' : St} (hst : s'.store = s.store) (hse : StaticEq s s') {t : Tree} (h : DenFail s t) :
+    DenFail s' t := by
+  induction h with
+  | fail => exact .fail
+  | read k cont _ ih => refine .read k cont ?_; rw [hst]; exact ih
+  | readCFail c cont x hx _ ih =>
+    obtain ⟨x', hx', _, _, ht⟩ := hse.defined hx
+    exact .readCFail c cont x' hx' (by rw [ht]; exact ih)
+  | readC c cont x a hx ha _ ih =>
+    obtain ⟨x', hx', _, _, ht⟩ := hse.defined hx
+    exact .readC c cont x' a hx' (by rw [ht]; exact ha.congr hst hse) ih
+  | readCUndef c cont hx => exact .readCUndef c cont ((hse.comps c).1.mpr hx)
+
+theorem pathR_den {s : St} {t : Tree} {ps : List (PRef × V)} {v : V} (hp : PathR t ps v)
+    (hobs : ∀ k x, (PRef.obs k, x) ∈ ps → s.store k = x)
+    (hcomp : ∀ c x, (PRef.comp c, x) ∈ ps → ∃ y, s.comps c = some y ∧ Den s y.tree x) : Den s t v := by
+  induction hp with
+  | ret v => exact .ret v
+  | read k cont x ps v _ ih =>
+    have hx : s.store k = x := hobs k x (by simp)
+    subst hx
+    exact .read k cont v (ih (fun k' x' h' => hobs k' x' (by simp [h'])) (fun c x' h' => hcomp c x' (by simp [h'])))
+  | readC c cont x ps v _ ih =>
+    obtain ⟨y, hy, hd⟩ := hcomp c x (by simp)
+    exact .readC c cont y x v hy hd
+      (ih (fun k' x' h' => hobs k' x' (by simp [h'])) (fun c' x' h' => hcomp c' x' (by simp [h'])))
+
+/-- **a clean Computed holds the value its function would return now** (also while other Computeds are evaluating) -/
+theorem clean_den {S : Nat → Prop} {s : St} (inv : Inv S NoP s) :
+    ∀ c x, s.comps c = some x → x.dirty = false → ∃ v, x.value = some v ∧ Den s x.tree v := by
+  intro c
+  induction c using Nat.strongRecOn with
+  | _ c ih =>
+    intro x hx hd
+    have hS : ¬ S c := by
+      intro hS
+      obtain ⟨y, hy, hyd⟩ := inv.stackDirty c hS
+      rw [hx] at hy; cases hy; simp [hd] at hyd
+    obtain ⟨e1, e2⟩ := inv.evald c x hx hS
+    have hf : x.first = false := by
+      cases hxf : x.first with
+      | false => rfl
+      | true => have := (e1 hxf).1; simp [hd] at this
+    obtain ⟨v, ps, hv, hp, hmem⟩ := e2 hf
+    refine ⟨v, hv, pathR_den hp ?_ ?_⟩
+    · intro k a ha
+      exact inv.current c x hx hd (.obs k) a ((hmem _).mp ha)
+    · intro c' a ha
+      have hpar := (hmem _).mp ha
+      obtain ⟨y, hy, hyv, hyd⟩ := inv.current c x hx hd (.comp c') a hpar
+      have hlt : c' < c := (inv.parents c x hx (.comp c') a hpar).1 c' rfl
+      rcases hyd with hyd | hyd
+      · obtain ⟨v', hv', hden⟩ := ih c' hlt y hy hyd
+        rw [hyv] at hv'; cases hv'
+        exact ⟨y, hy, hden⟩
+      · exact absurd hyd (by simp [NoP])
+
+/-- the remembered value differs from the present one (for a Computable: from its up-to-date value, or its
+    function raises now) -/
+def Stale (s : St) : PRef × V → Prop
   | (.obs k, v) => s.store k ≠ v
-  | (.comp c, v) => ∃ y, s.comps c = some y ∧ y.dirty = false ∧ y.value ≠ some v
+  | (.comp c, v) => ∃ y, s.comps c = some y ∧ ((y.dirty = false ∧ y.value ≠ some v) ∨ DenFail s y.tree)
 
-theorem Stale.keep {s s' : St} (hst : s'.store = s.store)
-    (hk : ∀ q x, s.comps q = some x → x.dirty = false → s'.comps q = some x) {e : PRef × Int} (h : Stale s e) :
+theorem Stale.keep {s s' : St} (hst : s'.store = s.store) (hse : StaticEq s s')
+    (hk : ∀ q x, s.comps q = some x → x.dirty = false → s'.comps q = some x) {e : PRef × V} (h : Stale s e) :
     Stale s' e := by
   obtain ⟨p, v⟩ := e
   cases p with
   | obs k => simpa [Stale, hst] using h
   | comp c =>
-    obtain ⟨y, hy, hd, hv⟩ := h
-    exact ⟨y, hk c y hy hd, hd, hv⟩
+    obtain ⟨y, hy, hd⟩ := h
+    rcases hd with ⟨hd, hv⟩ | hf
+    · exact ⟨y, hk c y hy hd, Or.inl ⟨hd, hv⟩⟩
+    · obtain ⟨y', hy', _, _, ht⟩ := hse.defined hy
+      exact ⟨y', hy', Or.inr (by rw [ht]; exact hf.congr hst hse)⟩
 
 /-- why the function body of a Computed ran (or did not) between two states: at most once, and then only on
-    the first evaluation or because something it remembered differs from the present value -/
+    the first evaluation (also: the first one after an evaluation that raised) or because something it remembered
+    differs from the present value -/
 def Justified (x : Comp) (s' : St) (y : Comp) : Prop :=
   y.evals = x.evals ∨ (y.evals = x.evals + 1 ∧ x.dirty = true ∧ (x.first = true ∨ ∃ e ∈ x.parents, Stale s' e))
+
+/-- what a read did to a Computed other than the one on top of the evaluation stack: its function did not run and —
+    unless it was re-validated (no longer dirty) — nothing at all happened to it; or its function ran, and then it was
+    dirty and either never ran / raised the last time it ran, or something it remembered differs from the present value -/
+def JustAll (x : Comp) (s' : St) (y : Comp) : Prop :=
+  (y.evals = x.evals ∧ (y.dirty = true → y = x)) ∨
+  (x.evals < y.evals ∧ x.dirty = true ∧ (x.first = true ∨ ∃ e ∈ x.parents, Stale s' e))
+
+theorem JustAll.refl (x : Comp) (s : St) : JustAll x s x := Or.inl ⟨rfl, fun _ => rfl⟩
+
+theorem JustAll.trans {x y z : Comp} {s1 s2 : St} (hst : s2.store = s1.store) (hse : StaticEq s1 s2)
+    (hk : ∀ q x, s1.comps q = some x → x.dirty = false → s2.comps q = some x)
+    (h1 : JustAll x s1 y) (h2 : JustAll y s2 z) : JustAll x s2 z := by
+  rcases h1 with ⟨e1, d1⟩ | ⟨l1, xd, r1⟩
+  · rcases h2 with ⟨e2, d2⟩ | ⟨l2, yd, r2⟩
+    · exact Or.inl ⟨e2.trans e1, fun hz => by have h := d2 hz; subst h; exact d1 hz⟩
+    · have h := d1 yd; subst h; exact Or.inr ⟨l2, yd, r2⟩
+  · have hle : y.evals ≤ z.evals := by
+      rcases h2 with ⟨e2, _⟩ | ⟨l2, _, _⟩ <;> omega
+    refine Or.inr ⟨by omega, xd, ?_⟩
+    rcases r1 with r1 | ⟨e, he, hs⟩
+    · exact Or.inl r1
+    · exact Or.inr ⟨e, he, Stale.keep hst hse hk hs⟩
+
+/-- `JustAll` for every Computed with an index in `P` -/
+def Below (P : Nat → Prop) (s s' : St) : Prop :=
+  ∀ q x, P q → s.comps q = some x → ∃ y, s'.comps q = some y ∧ JustAll x s' y
+
+theorem Below.refl (P : Nat → Prop) (s : St) : Below P s s := fun _ x _ hx => ⟨x, hx, JustAll.refl x s⟩
+
+theorem Below.of_eq {P : Nat → Prop} {s s' : St} (h : ∀ q, P q → s'.comps q = s.comps q) : Below P s s' :=
+  fun q x hq hx => ⟨x, by rw [h q hq]; exact hx, JustAll.refl x s'⟩
+
+theorem Below.trans {P : Nat → Prop} {s s1 s2 : St} (hst : s2.store = s1.store) (hse : StaticEq s1 s2)
+    (hk : ∀ q x, s1.comps q = some x → x.dirty = false → s2.comps q = some x)
+    (b1 : Below P s s1) (b2 : Below P s1 s2) : Below P s s2 := by
+  intro q x hq hx
+  obtain ⟨y, hy, j1⟩ := b1 q x hq hx
+  obtain ⟨z, hz, j2⟩ := b2 q y hq hy
+  exact ⟨z, hz, j1.trans hst hse hk j2⟩
+
+/-- from the Computeds up to `c'` to all below `c`, when those in between were not touched -/
+theorem Below.widen {c' c : Nat} {s s' : St} (b : Below (· ≤ c') s s')
+    (hab : ∀ q, c' < q → q < c → s'.comps q = s.comps q) : Below (· < c) s s' := by
+  intro q x hq hx
+  by_cases h : q ≤ c'
+  · exact b q x h hx
+  · exact ⟨x, by rw [hab q (by omega) hq]; exact hx, JustAll.refl x s'⟩
+
+/-- steps before that leave the Computeds in `P` alone -/
+theorem Below.eq_step {P : Nat → Prop} {s s1 s2 : St} (hc : ∀ q, P q → s1.comps q = s.comps q)
+    (b : Below P s1 s2) : Below P s s2 :=
+  fun q x hq hx => b q x hq (by rw [hc q hq]; exact hx)
+
+/-- … and steps after -/
+theorem Below.step_eq {P : Nat → Prop} {s s1 s2 : St} (b : Below P s s1) (hst : s2.store = s1.store)
+    (hse : StaticEq s1 s2) (hk : ∀ q x, s1.comps q = some x → x.dirty = false → s2.comps q = some x)
+    (hc : ∀ q, P q → s2.comps q = s1.comps q) : Below P s s2 :=
+  Below.trans hst hse hk b (Below.of_eq hc)
+
+theorem Below.snoc {c : Nat} {s s' : St} (b : Below (· < c) s s')
+    (hc : ∀ x, s.comps c = some x → ∃ y, s'.comps c = some y ∧ JustAll x s' y) : Below (· ≤ c) s s' := by
+  intro q x hq hx
+  by_cases h : q < c
+  · exact b q x h hx
+  · have : q = c := by omega
+    subst this; exact hc x hx
 
 /-! ### reading a Computable: the induction -/
 
 /-- what `Computable.__get__` of `c` guarantees when it returns `v` -/
-structure PostGet (S : Nat → Prop) (c : Nat) (s s' : St) (v : Int) : Prop where
+structure PostGet (S : Nat → Prop) (c : Nat) (s s' : St) (v : V) : Prop where
   inv : Inv S NoP s'
   stat : StaticEq s s'
   store : s'.store = s.store
@@ -854,17 +1113,34 @@ structure PostGet (S : Nat → Prop) (c : Nat) (s s' : St) (v : Int) : Prop wher
     ∀ x, s.comps c = some x → Justified x s' y
   keepClean : ∀ q x, s.comps q = some x → x.dirty = false → s'.comps q = some x
   above : ∀ q, c < q → s.cur ≠ some q → s'.comps q = s.comps q
+  below : Below (· ≤ c) s s'
   curPar : ∀ p x, s.cur = some p → s.comps p = some x →
     ∃ own, s'.comps p = some { x with parents := insertParent own (.comp c) v x.parents }
+
+/-- … and when it raises: the function of `c` ran and raised, and would raise if evaluated now; `c` will run it again
+    on the next read; nothing else happened to the Computeds above `c` (the evaluating one registered nothing).
+    (Or `c` is not defined: `AttributeError`, nothing happened at all.) -/
+structure PostErr (S : Nat → Prop) (c : Nat) (s s' : St) : Prop where
+  inv : Inv S NoP s'
+  stat : StaticEq s s'
+  store : s'.store = s.store
+  cur : s'.cur = s.cur
+  dead : s'.dead = s.dead
+  failed : s.comps c = none ∨ ∃ y, s'.comps c = some y ∧ y.first = true ∧ y.dirty = true ∧ DenFail s' y.tree ∧
+    ∀ x, s.comps c = some x → Justified x s' y
+  keepClean : ∀ q x, s.comps q = some x → x.dirty = false → s'.comps q = some x
+  above : ∀ q, c < q → s'.comps q = s.comps q
+  below : Below (· ≤ c) s s'
 
 /-- the induction hypothesis about the recursive calls -/
 structure IH (rec : Rec) : Prop where
   get : ∀ (c : Nat) (s s' : St) (r : R) (S : Nat → Prop), Stat s → Inv S NoP s → ¬ S c → (∀ q, S q → c < q) →
-    rec (.readC c) s = some (s', r) → (∀ v, r = .ok v → PostGet S c s s' v) ∧ r ≠ .err .noneVal
+    rec (.readC c) s = some (s', r) →
+    (∀ v, r = .ok v → PostGet S c s s' v) ∧ (∀ e, r = .err e → PostErr S c s s')
   notify : ∀ k o n s, rec (.notify k o n) s = none ∨ ∃ rec', rec (.notify k o n) s = notifyT rec' k o n s
 
 theorem Current.keep {s s' : St} (hst : s'.store = s.store)
-    (hk : ∀ q x, s.comps q = some x → x.dirty = false → s'.comps q = some x) {p : PRef} {v : Int}
+    (hk : ∀ q x, s.comps q = some x → x.dirty = false → s'.comps q = some x) {p : PRef} {v : V}
     (h : Current NoP s p v) : Current NoP s' p v := by
   refine Current.of_eq hst ?_ h
   intro c y hy w hw hd
@@ -872,29 +1148,43 @@ theorem Current.keep {s s' : St} (hst : s'.store = s.store)
   · exact ⟨y, hk c y hy hd, hw, Or.inl hd⟩
   · exact absurd hd (by simp [NoP])
 
-/-- the function body of Computed `c` (a pure tree), evaluated with `CURRENT_COMPUTED = c` -/
+/-- what a function reads as a plain Observable is not the slot of a Computable -/
+theorem Stat.notSlot {s : St} (w : Stat s) {k : Key} (hk : s.kindAt k = some .obs) : ¬ s.isSlot k := by
+  rintro ⟨c', x', hx', rfl⟩
+  rw [w.slotKind c' x' hx'] at hk; cases hk
+
+/-- the function body of Computed `c` (a pure tree), evaluated with `CURRENT_COMPUTED = c`: whether it returns or
+    raises, `ps` = what it read on the way -/
 theorem evalTree_spec {rec : Rec} (ih : IH rec) (c : Nat) (S : Nat → Prop) (hSc : ¬ S c) (hSlt : ∀ q, S q → c < q) :
-    ∀ (t : Tree), Pure t → ∀ (s s' : St) (r : R) (x : Comp) (ps0 : List (PRef × Int)),
-    Ranked c t → ObsKeys (fun k => ¬ s.isSlot k) t → Stat s → Inv (fun q => S q ∨ q = c) NoP s →
+    ∀ (t : Tree), Pure t → ∀ (s s' : St) (r : R) (x : Comp) (ps0 : List (PRef × V)),
+    Ranked c t → ObsKeys (fun k => s.kindAt k = some .obs) t → Stat s → Inv (fun q => S q ∨ q = c) NoP s →
     s.cur = some c → s.comps c = some x → (∀ e, e ∈ ps0 ↔ e ∈ x.parents) →
     (∀ e ∈ ps0, Current NoP s e.1 e.2) → evalTree rec t s = some (s', r) →
-    (∀ v, r = .ok v → ∃ ps x', PathR t ps v ∧ Inv (fun q => S q ∨ q = c) NoP s' ∧ StaticEq s s' ∧
+    ∃ ps x', Inv (fun q => S q ∨ q = c) NoP s' ∧ StaticEq s s' ∧
       s'.store = s.store ∧ s'.cur = s.cur ∧ s'.dead = s.dead ∧
       (∀ q y, s.comps q = some y → y.dirty = false → s'.comps q = some y) ∧
-      (∀ q, c < q → s'.comps q = s.comps q) ∧
+      (∀ q, c < q → s'.comps q = s.comps q) ∧ Below (· < c) s s' ∧
       s'.comps c = some x' ∧ x' = { x with parents := x'.parents } ∧
-      (∀ e, e ∈ ps0 ++ ps ↔ e ∈ x'.parents) ∧ (∀ e ∈ ps0 ++ ps, Current NoP s' e.1 e.2)) ∧
-    r ≠ .err .noneVal := by
+      (∀ e, e ∈ ps0 ++ ps ↔ e ∈ x'.parents) ∧
+      (∀ v, r = .ok v → PathR t ps v ∧ ∀ e ∈ ps0 ++ ps, Current NoP s' e.1 e.2) ∧
+      (∀ e, r = .err e → Prefix t ps ∧ DenFail s' t) := by
   intro t pt
   induction pt with
   | ret v0 =>
     intro s s' r x ps0 _ _ _ inv hcur hx hps hcurr h
     simp only [evalTree] at h
     injection h with h; injection h with h1 h2; subst h1 h2
-    refine ⟨fun v hv => ?_, by simp⟩
+    refine ⟨[], x, inv, StaticEq.refl s, rfl, rfl, rfl, fun _ _ h _ => h, fun _ _ => rfl, Below.refl _ s, hx, rfl,
+      by simpa using hps, fun v hv => ?_, fun e he => by cases he⟩
     injection hv with hv; subst hv
-    exact ⟨[], x, .ret _, inv, StaticEq.refl s, rfl, rfl, rfl, fun _ _ h _ => h, fun _ _ => rfl, hx, rfl,
-      by simpa using hps, by simpa using hcurr⟩
+    exact ⟨.ret _, by simpa using hcurr⟩
+  | fail =>
+    intro s s' r x ps0 _ _ _ inv hcur hx hps hcurr h
+    simp only [evalTree] at h
+    injection h with h; injection h with h1 h2; subst h1 h2
+    refine ⟨[], x, inv, StaticEq.refl s, rfl, rfl, rfl, fun _ _ h _ => h, fun _ _ => rfl, Below.refl _ s, hx, rfl,
+      by simpa using hps, fun v hv => (by cases hv), fun e he => ?_⟩
+    exact ⟨.nil _, .fail⟩
   | read k cont _ ihc =>
     intro s s' r x ps0 hr ho w inv hcur hx hps hcurr h
     cases hr with | read _ _ hr =>
@@ -903,22 +1193,19 @@ theorem evalTree_spec {rec : Rec} (ih : IH rec) (c : Nat) (S : Nat → Prop) (hS
     cases ha : addParent s c (.obs k) (s.store k) with | mk s1 r1 =>
     rw [ha] at h
     cases r1 with
-    | err e =>
-      simp only at h
-      injection h with h; injection h with h1 h2; subst h1 h2
-      refine ⟨fun v hv => (by cases hv), ?_⟩
-      exact addParent_not_noneVal w.regs ha
+    | err e => exact (addParent_ok w hx (r := .obs k) rfl (kindAt_names hk) ha).elim
     | ok u =>
       simp only at h
       have hSc' : (fun q => S q ∨ q = c) c := Or.inr rfl
       obtain ⟨inv1, se1, hst1, hcur1, hdead1, hoth1, hc1⟩ :=
-        addParent_spec w inv hSc' hx (r := .obs k) (fun c' hc' => by cases hc') (fun k' hk' => by cases hk'; exact hk) ha
+        addParent_spec w inv hSc' hx (r := .obs k) (fun c' hc' => by cases hc')
+          (fun k' hk' => by cases hk'; exact w.notSlot hk) ha
       have hxd : x.dirty = true := by
         obtain ⟨y, hy, hd⟩ := inv.stackDirty c hSc'
         rw [hx] at hy; cases hy; exact hd
       -- the state the rest of the function starts from
       have inv1' : Inv (fun q => S q ∨ q = c) NoP { s1 with proc := k :: s1.proc } :=
-        inv1.congr rfl rfl rfl inv1.curStack
+        inv1.congr rfl rfl rfl rfl inv1.curStack
       have se1' : StaticEq s { s1 with proc := k :: s1.proc } := ⟨se1.progs, se1.decls, se1.comps⟩
       have hcons : ∀ e ∈ x.parents, e.1 = .obs k → e.2 = s.store k := by
         intro e he hek
@@ -928,10 +1215,11 @@ theorem evalTree_spec {rec : Rec} (ih : IH rec) (c : Nat) (S : Nat → Prop) (hS
         intro q y hy hd
         have : q ≠ c := by intro e; subst e; rw [hx] at hy; cases hy; simp [hxd] at hd
         rw [hoth1 q this]; exact hy
-      obtain ⟨hok, hnn⟩ := ihc (s.store k) { s1 with proc := k :: s1.proc } s' r
+      obtain ⟨ps, x', inv', se', hst', hcur', hdead', hk', hab', hbl', hc', hx', hmem', hokp, herrp⟩ :=
+        ihc (s.store k) { s1 with proc := k :: s1.proc } s' r
         { x with parents := insertParent s.ownerOf (.obs k) (s.store k) x.parents }
         (ps0 ++ [(.obs k, s.store k)]) (hr _)
-        ((ho _).mono fun k' hk' hs => hk' ((se1'.isSlot k').mp hs)) (w.of_staticEq se1') inv1'
+        ((ho _).mono fun k' hk' => by rw [se1'.kindAt]; exact hk') (w.of_staticEq se1') inv1'
         (by simpa using hcur1.trans hcur) hc1
         (fun e => by
           rw [mem_insertParent_consistent _ _ _ _ hcons, List.mem_append, List.mem_singleton, hps e]
@@ -943,17 +1231,22 @@ theorem evalTree_spec {rec : Rec} (ih : IH rec) (c : Nat) (S : Nat → Prop) (hS
             show s1.store k = s.store k
             rw [hst1])
         h
-      refine ⟨fun v hv => ?_, hnn⟩
-      obtain ⟨ps, x', hp, inv', se', hst', hcur', hdead', hk', hab', hc', hx', hmem', hcurr'⟩ := hok v hv
-      refine ⟨(.obs k, s.store k) :: ps, x', .read k cont _ ps v hp, inv', se1'.trans se', hst'.trans hst1,
-        hcur'.trans hcur1, hdead'.trans hdead1, ?_, ?_, hc', ?_, ?_, ?_⟩
+      have hst'' : s'.store = s.store := hst'.trans hst1
+      refine ⟨(.obs k, s.store k) :: ps, x', inv', se1'.trans se', hst'', hcur'.trans hcur1, hdead'.trans hdead1,
+        ?_, ?_, ?_, hc', ?_, ?_, fun v hv => ?_, fun e he => ?_⟩
       · intro q y hy hd; exact hk' q y (hkeep1 q y hy hd) hd
       · intro q hq
         rw [hab' q hq]
         exact hoth1 q (by omega)
+      · exact Below.trans hst' se' hk'
+          (Below.of_eq (s' := { s1 with proc := k :: s1.proc }) fun q (hq : q < c) => hoth1 q (by omega)) hbl'
       · rw [hx']
       · intro e; rw [← hmem' e]; simp [List.append_assoc]
-      · intro e he; exact hcurr' e (by simpa [List.append_assoc] using he)
+      · obtain ⟨hp, hcurr'⟩ := hokp v hv
+        exact ⟨.read k cont _ ps v hp, fun e he => hcurr' e (by simpa [List.append_assoc] using he)⟩
+      · obtain ⟨hpre, hdf⟩ := herrp e he
+        refine ⟨.read k cont _ ps hpre, .read k cont ?_⟩
+        rw [hst'']; exact hdf
   | readC c' cont _ ihc =>
     intro s s' r x ps0 hr ho w inv hcur hx hps hcurr h
     cases hr with | readC _ _ hlt hr =>
@@ -971,13 +1264,20 @@ theorem evalTree_spec {rec : Rec} (ih : IH rec) (c : Nat) (S : Nat → Prop) (hS
         rintro q (h' | h')
         · have := hSlt q h'; omega
         · omega
-      obtain ⟨hpost, hnn1⟩ := ih.get c' s s1 r1 _ w inv hS' hSlt' hg
+      obtain ⟨hpost, hperr⟩ := ih.get c' s s1 r1 _ w inv hS' hSlt' hg
       rw [hg] at h
       cases r1 with
       | err e =>
         simp only at h
         injection h with h; injection h with h1 h2; subst h1 h2
-        exact ⟨fun v hv => (by cases hv), hnn1⟩
+        have pe := hperr e rfl
+        refine ⟨[], x, pe.inv, pe.stat, pe.store, pe.cur, pe.dead, pe.keepClean, fun q hq => pe.above q (by omega),
+          pe.below.widen (fun q hq _ => pe.above q hq),
+          by rw [pe.above c hlt]; exact hx, rfl, by simpa using hps, fun v hv => (by cases hv), fun e' he' => ?_⟩
+        refine ⟨.nil _, ?_⟩
+        rcases pe.failed with hnone | ⟨y, hy, _, _, hdf, _⟩
+        · exact .readCUndef c' cont ((pe.stat.comps c').1.mpr hnone)
+        · exact .readCFail c' cont y hy hdf
       | ok v1 =>
         simp only at h
         have pg := hpost v1 rfl
@@ -993,9 +1293,10 @@ theorem evalTree_spec {rec : Rec} (ih : IH rec) (c : Nat) (S : Nat → Prop) (hS
             rw [hy1] at this; cases this
             rw [hyv] at hyv1; cases hyv1; rfl
           · exact absurd hyd (by simp [NoP])
-        obtain ⟨hok, hnn⟩ := ihc v1 s1 s' r { x with parents := insertParent own (.comp c') v1 x.parents }
+        obtain ⟨ps, x', inv', se', hst', hcur', hdead', hk', hab', hbl', hc', hx', hmem', hokp, herrp⟩ :=
+          ihc v1 s1 s' r { x with parents := insertParent own (.comp c') v1 x.parents }
           (ps0 ++ [(.comp c', v1)]) (hr _)
-          ((ho _).mono fun k' hk' hs => hk' ((pg.stat.isSlot k').mp hs)) (w.of_staticEq pg.stat) pg.inv
+          ((ho _).mono fun k' hk' => by rw [pg.stat.kindAt]; exact hk') (w.of_staticEq pg.stat) pg.inv
           (pg.cur.trans hcur) hc1
           (fun e => by
             rw [mem_insertParent_consistent _ _ _ _ hcons, List.mem_append, List.mem_singleton, hps e]
@@ -1006,42 +1307,45 @@ theorem evalTree_spec {rec : Rec} (ih : IH rec) (c : Nat) (S : Nat → Prop) (hS
             · simp only [List.mem_singleton] at he; subst he
               exact ⟨y1, hy1, hyv1, Or.inl hyd1⟩)
           h
-        refine ⟨fun v hv => ?_, hnn⟩
-        obtain ⟨ps, x', hp, inv', se', hst', hcur', hdead', hk', hab', hc', hx', hmem', hcurr'⟩ := hok v hv
-        refine ⟨(.comp c', v1) :: ps, x', .readC c' cont _ ps v hp, inv', pg.stat.trans se', hst'.trans pg.store,
-          hcur'.trans pg.cur, hdead'.trans pg.dead, ?_, ?_, hc', ?_, ?_, ?_⟩
+        refine ⟨(.comp c', v1) :: ps, x', inv', pg.stat.trans se', hst'.trans pg.store,
+          hcur'.trans pg.cur, hdead'.trans pg.dead, ?_, ?_, ?_, hc', ?_, ?_, fun v hv => ?_, fun e he => ?_⟩
         · intro q y hy hd; exact hk' q y (pg.keepClean q y hy hd) hd
         · intro q hq
           rw [hab' q hq]
           exact pg.above q (by omega) (by rw [hcur]; intro e; injection e with e; omega)
+        · exact Below.trans hst' se' hk'
+            (pg.below.widen fun q hq hqc => pg.above q hq (by rw [hcur]; intro e; injection e with e; omega)) hbl'
         · rw [hx']
         · intro e; rw [← hmem' e]; simp [List.append_assoc]
-        · intro e he; exact hcurr' e (by simpa [List.append_assoc] using he)
+        · obtain ⟨hp, hcurr'⟩ := hokp v hv
+          exact ⟨.readC c' cont _ ps v hp, fun e he => hcurr' e (by simpa [List.append_assoc] using he)⟩
+        · obtain ⟨hpre, hdf⟩ := herrp e he
+          obtain ⟨v', hv', hden⟩ := clean_den pg.inv c' y1 hy1 hyd1
+          rw [hyv1] at hv'; cases hv'
+          obtain ⟨y', hy', _, _, ht⟩ := se'.defined hy1
+          exact ⟨.readC c' cont _ ps hpre,
+            .readC c' cont y' v1 hy' (by rw [ht]; exact hden.congr hst' se') hdf⟩
 
-
-/-- the dirty pre-check of Computed `c` over its remembered parents `ps` -/
+/-- the dirty pre-check of Computed `c` over its remembered parents `ps`: it never raises (G12 repaired) -/
 theorem precheck_spec {rec : Rec} (ih : IH rec) (c : Nat) (S : Nat → Prop) (hSlt : ∀ q, S q → c < q) :
-    ∀ (ps : List (PRef × Int)) (s s' : St) (r : Except Err Bool),
-    (∀ e ∈ ps, ∀ c', e.1 = .comp c' → c' < c) → Stat s → Inv S NoP s → s.cur = none →
+    ∀ (ps : List (PRef × V)) (s s' : St) (r : Except Err Bool),
+    (∀ e ∈ ps, (∀ c', e.1 = .comp c' → c' < c) ∧ ∃ k, s.keyOf e.1 = some k) → Stat s → Inv S NoP s → s.cur = none →
     precheck rec ps s = some (s', r) →
-    (∀ b, r = .ok b → Inv S NoP s' ∧ StaticEq s s' ∧ s'.store = s.store ∧ s'.cur = none ∧ s'.dead = s.dead ∧
+    ∃ b, r = .ok b ∧ Inv S NoP s' ∧ StaticEq s s' ∧ s'.store = s.store ∧ s'.cur = none ∧ s'.dead = s.dead ∧
       (∀ q y, s.comps q = some y → y.dirty = false → s'.comps q = some y) ∧
-      (∀ q, c ≤ q → s'.comps q = s.comps q) ∧
+      (∀ q, c ≤ q → s'.comps q = s.comps q) ∧ Below (· < c) s s' ∧
       (b = false → ∀ e ∈ ps, Current NoP s' e.1 e.2) ∧
-      (b = true → ∃ e ∈ ps, Stale s' e)) ∧
-    r ≠ .error .noneVal := by
+      (b = true → ∃ e ∈ ps, Stale s' e) := by
   intro ps
   induction ps with
   | nil =>
     intro s s' r _ _ inv hcur h
     simp only [precheck] at h
     injection h with h; injection h with h1 h2; subst h1 h2
-    refine ⟨fun b hb => ?_, by simp⟩
-    injection hb with hb; subst hb
-    exact ⟨inv, StaticEq.refl s, rfl, hcur, rfl, fun _ _ h _ => h, fun _ _ => rfl, fun _ e he => (by simp at he),
-      fun h => (by cases h)⟩
+    exact ⟨false, rfl, inv, StaticEq.refl s, rfl, hcur, rfl, fun _ _ h _ => h, fun _ _ => rfl, Below.refl _ s,
+      fun _ e he => (by simp at he), fun h => (by cases h)⟩
   | cons e ps ihp =>
-    intro s s' r hrank w inv hcur h
+    intro s s' r hpar w inv hcur h
     obtain ⟨p, v⟩ := e
     cases p with
     | obs k =>
@@ -1049,15 +1353,11 @@ theorem precheck_spec {rec : Rec} (ih : IH rec) (c : Nat) (S : Nat → Prop) (hS
       by_cases hne : s.store k ≠ v
       · rw [if_pos hne] at h
         injection h with h; injection h with h1 h2; subst h1 h2
-        refine ⟨fun b hb => ?_, by simp⟩
-        injection hb with hb; subst hb
-        exact ⟨inv, StaticEq.refl s, rfl, hcur, rfl, fun _ _ h _ => h, fun _ _ => rfl, fun h => (by cases h),
-          fun _ => ⟨(.obs k, v), by simp, hne⟩⟩
+        exact ⟨true, rfl, inv, StaticEq.refl s, rfl, hcur, rfl, fun _ _ h _ => h, fun _ _ => rfl, Below.refl _ s,
+          fun h => (by cases h), fun _ => ⟨(.obs k, v), by simp, hne⟩⟩
       · rw [if_neg hne] at h
-        obtain ⟨hok, hnn⟩ := ihp s s' r (fun e he => hrank e (by simp [he])) w inv hcur h
-        refine ⟨fun b hb => ?_, hnn⟩
-        obtain ⟨i1, i2, i3, i4, i5, i6, i7, i8, i9⟩ := hok b hb
-        refine ⟨i1, i2, i3, i4, i5, i6, i7, fun hb' e he => ?_, fun hb' => ?_⟩
+        obtain ⟨b, hb, i1, i2, i3, i4, i5, i6, i7, ib, i8, i9⟩ := ihp s s' r (fun e he => hpar e (by simp [he])) w inv hcur h
+        refine ⟨b, hb, i1, i2, i3, i4, i5, i6, i7, ib, fun hb' e he => ?_, fun hb' => ?_⟩
         · rcases List.mem_cons.mp he with rfl | he
           · show s'.store k = v
             rw [i3]; exact Decidable.not_not.mp hne
@@ -1065,7 +1365,7 @@ theorem precheck_spec {rec : Rec} (ih : IH rec) (c : Nat) (S : Nat → Prop) (hS
         · obtain ⟨e, he, hs⟩ := i9 hb'
           exact ⟨e, by simp [he], hs⟩
     | comp c4 =>
-      have hc4 : c4 < c := hrank (.comp c4, v) (by simp) c4 rfl
+      have hc4 : c4 < c := (hpar (.comp c4, v) (by simp)).1 c4 rfl
       simp only [precheck] at h
       cases hg : rec (.readC c4) s with
       | none => simp [hg] at h
@@ -1073,16 +1373,26 @@ theorem precheck_spec {rec : Rec} (ih : IH rec) (c : Nat) (S : Nat → Prop) (hS
         obtain ⟨s1, r1⟩ := res
         have hS4 : ¬ S c4 := fun h' => by have := hSlt c4 h'; omega
         have hSlt4 : ∀ q, S q → c4 < q := fun q h' => by have := hSlt q h'; omega
-        obtain ⟨hpost, hnn1⟩ := ih.get c4 s s1 r1 S w inv hS4 hSlt4 hg
+        obtain ⟨hpost, hperr⟩ := ih.get c4 s s1 r1 S w inv hS4 hSlt4 hg
         rw [hg] at h
         cases r1 with
         | err e =>
-          cases e with
-          | noneVal => exact absurd rfl hnn1
-          | _ =>
-            simp only at h
-            injection h with h; injection h with h1 h2; subst h1 h2
-            exact ⟨fun b hb => (by cases hb), by simp⟩
+          -- the remembered Computable raises now: that counts as "changed"
+          simp only at h
+          injection h with h; injection h with h1 h2; subst h1 h2
+          have pe := hperr e rfl
+          have hdef4 : ∃ y4, s.comps c4 = some y4 := by
+            obtain ⟨_, k, hk⟩ := hpar (.comp c4, v) (by simp)
+            simp only [St.keyOf] at hk
+            cases h4 : s.comps c4 with
+            | none => simp [h4] at hk
+            | some y4 => exact ⟨y4, rfl⟩
+          obtain ⟨y4, hy4⟩ := hdef4
+          rcases pe.failed with hnone | ⟨y, hy, _, _, hdf, _⟩
+          · rw [hy4] at hnone; cases hnone
+          exact ⟨true, rfl, pe.inv, pe.stat, pe.store, pe.cur.trans hcur, pe.dead, pe.keepClean,
+            fun q hq => pe.above q (by omega), pe.below.widen (fun q hq _ => pe.above q hq), fun h => (by cases h),
+            fun _ => ⟨(.comp c4, v), by simp, y, hy, Or.inr hdf⟩⟩
         | ok v' =>
           simp only at h
           have pg := hpost v' rfl
@@ -1091,20 +1401,20 @@ theorem precheck_spec {rec : Rec} (ih : IH rec) (c : Nat) (S : Nat → Prop) (hS
           by_cases hne : v' ≠ v
           · rw [if_pos hne] at h
             injection h with h; injection h with h1 h2; subst h1 h2
-            refine ⟨fun b hb => ?_, by simp⟩
-            injection hb with hb; subst hb
             obtain ⟨y, hy, hyd, hyv, _⟩ := pg.clean
-            refine ⟨pg.inv, pg.stat, pg.store, pg.cur.trans hcur, pg.dead, pg.keepClean, hab, fun h => (by cases h),
-              fun _ => ⟨(.comp c4, v), by simp, y, hy, hyd, ?_⟩⟩
+            refine ⟨true, rfl, pg.inv, pg.stat, pg.store, pg.cur.trans hcur, pg.dead, pg.keepClean, hab,
+              pg.below.widen (fun q hq _ => pg.above q hq (by rw [hcur]; simp)), fun h => (by cases h),
+              fun _ => ⟨(.comp c4, v), by simp, y, hy, Or.inl ⟨hyd, ?_⟩⟩⟩
             rw [hyv]; intro e; injection e with e; exact hne e
           · rw [if_neg hne] at h
             have hveq : v' = v := Decidable.not_not.mp hne
-            obtain ⟨hok, hnn⟩ := ihp s1 s' r (fun e he => hrank e (by simp [he])) (w.of_staticEq pg.stat) pg.inv
-              (pg.cur.trans hcur) h
-            refine ⟨fun b hb => ?_, hnn⟩
-            obtain ⟨i1, i2, i3, i4, i5, i6, i7, i8, i9⟩ := hok b hb
-            refine ⟨i1, pg.stat.trans i2, i3.trans pg.store, i4, i5.trans pg.dead,
+            obtain ⟨b, hb, i1, i2, i3, i4, i5, i6, i7, ib, i8, i9⟩ :=
+              ihp s1 s' r (fun e he => by
+                obtain ⟨h1, k, hk⟩ := hpar e (by simp [he])
+                exact ⟨h1, k, by rw [pg.stat.keyOf]; exact hk⟩) (w.of_staticEq pg.stat) pg.inv (pg.cur.trans hcur) h
+            refine ⟨b, hb, i1, pg.stat.trans i2, i3.trans pg.store, i4, i5.trans pg.dead,
               fun q y hy hd => i6 q y (pg.keepClean q y hy hd) hd, fun q hq => (i7 q hq).trans (hab q hq),
+              Below.trans i3 i2 i6 (pg.below.widen (fun q hq _ => pg.above q hq (by rw [hcur]; simp))) ib,
               fun hb' e he => ?_, fun hb' => ?_⟩
             · rcases List.mem_cons.mp he with rfl | he
               · obtain ⟨y, hy, hyd, hyv, _⟩ := pg.clean
@@ -1115,7 +1425,7 @@ theorem precheck_spec {rec : Rec} (ih : IH rec) (c : Nat) (S : Nat → Prop) (hS
 
 
 /-- the evaluated Computed `c` stores its value, becomes clean and leaves the stack -/
-theorem Inv.finish {S : Nat → Prop} {s : St} {c : Nat} {x : Comp} {v : Int} {ps : List (PRef × Int)}
+theorem Inv.finish {S : Nat → Prop} {s : St} {c : Nat} {x : Comp} {v : V} {ps : List (PRef × V)}
     {saved : Option Nat} (inv : Inv (fun q => S q ∨ q = c) NoP s) (hSc : ¬ S c) (hx : s.comps c = some x)
     (hf : x.first = false) (hp : PathR x.tree ps v) (hmem : ∀ e, e ∈ ps ↔ e ∈ x.parents)
     (hcurr : ∀ e ∈ x.parents, Current NoP s e.1 e.2) (hsaved : ∀ p, saved = some p → S p) :
@@ -1138,7 +1448,7 @@ theorem Inv.finish {S : Nat → Prop} {s : St} {c : Nat} {x : Comp} {v : Int} {p
       obtain ⟨y, hy, hv, hd⟩ := h
       have : c' ≠ c := fun e => hne (by rw [e])
       exact ⟨y, by show (s.setComp c _).comps c' = some y; rw [setComp_ne _ _ this]; exact hy, hv, hd⟩
-  refine ⟨?_, hsaved, ?_, ?_, ?_, ?_⟩
+  refine ⟨?_, hsaved, ?_, ?_, ?_, ?_, inv.userOK⟩
   · intro q hq
     have : q ≠ c := fun e => hSc (e ▸ hq)
     show ∃ y, (s.setComp c _).comps q = some y ∧ _
@@ -1203,16 +1513,89 @@ theorem Inv.finish {S : Nat → Prop} {s : St} {c : Nat} {x : Comp} {v : Int} {p
       exact hcur' p0 v0 hc0 hne
 
 
+/-- the function of the evaluated Computed `c` raised: `c` will run it again next time (`_first = True`), stays dirty and
+    leaves the stack; what it read before the failure stays remembered (and subscribed) until then -/
+theorem Inv.fail {S : Nat → Prop} {s : St} {c : Nat} {x : Comp} {ps : List (PRef × V)}
+    {saved : Option Nat} (inv : Inv (fun q => S q ∨ q = c) NoP s) (hSc : ¬ S c) (hx : s.comps c = some x)
+    (hp : Prefix x.tree ps) (hmem : ∀ e, e ∈ ps ↔ e ∈ x.parents) (hsaved : ∀ p, saved = some p → S p) :
+    Inv S NoP { (s.setComp c { x with first := true }) with cur := saved } := by
+  have hxd : x.dirty = true := by
+    obtain ⟨y, hy, hd⟩ := inv.stackDirty c (Or.inr rfl)
+    rw [hx] at hy; cases hy; exact hd
+  have se : StaticEq s (s.setComp c { x with first := true }) := StaticEq.of_setComp hx rfl rfl rfl
+  have hkey := se.keyOf
+  have hsl := se.isSlot
+  have hsubd : ∀ q p0, Subd s q p0 → Subd { (s.setComp c { x with first := true }) with cur := saved } q p0 := by
+    intro q p0 ⟨k, h1, h2, h3⟩
+    exact ⟨k, by rw [← hkey] at h1; exact h1, h2, h3⟩
+  have hcomps : ∀ q, q ≠ c → ∀ y, ({ (s.setComp c { x with first := true }) with cur := saved } : St).comps q = some y →
+      s.comps q = some y := by
+    intro q hq y hy
+    have : (s.setComp c { x with first := true }).comps q = some y := hy
+    rwa [setComp_ne _ _ hq] at this
+  have hself : ∀ y, ({ (s.setComp c { x with first := true }) with cur := saved } : St).comps c = some y →
+      y = { x with first := true } := by
+    intro y hy
+    have : (s.setComp c { x with first := true }).comps c = some y := hy
+    rw [setComp_same] at this; cases this; rfl
+  refine ⟨?_, hsaved, ?_, ?_, ?_, ?_, inv.userOK⟩
+  · intro q hq
+    have : q ≠ c := fun e => hSc (e ▸ hq)
+    show ∃ y, (s.setComp c _).comps q = some y ∧ _
+    rw [setComp_ne _ _ this]; exact inv.stackDirty q (Or.inl hq)
+  · intro q y hy hq
+    by_cases h : q = c
+    · subst h
+      have := hself y hy; subst this
+      exact ⟨fun _ => ⟨hxd, ps, hp, hmem⟩, fun h' => by simp at h'⟩
+    · exact inv.evald q y (hcomps q h y hy) (by rintro (h' | h'); exact hq h'; exact h h')
+  · intro q y hy p0 v0 hp0
+    by_cases h : q = c
+    · subst h
+      have := hself y hy; subst this
+      obtain ⟨h1, h2, h3⟩ := inv.parents q x hx p0 v0 hp0
+      exact ⟨h1, fun k hk hs => h2 k hk ((hsl k).mp hs), hsubd q p0 h3⟩
+    · obtain ⟨h1, h2, h3⟩ := inv.parents q y (hcomps q h y hy) p0 v0 hp0
+      exact ⟨h1, fun k hk hs => h2 k hk ((hsl k).mp hs), hsubd q p0 h3⟩
+  · intro o n t q hq
+    obtain ⟨ht, y, hy, p0, v0, hp0, hk0⟩ := inv.subsOf o n t q hq
+    refine ⟨ht, ?_⟩
+    by_cases h : q = c
+    · subst h
+      rw [hx] at hy; cases hy
+      exact ⟨_, setComp_same _ _ _, p0, v0, hp0, by rw [← hkey] at hk0; exact hk0⟩
+    · exact ⟨y, by show (s.setComp c _).comps q = some y; rw [setComp_ne _ _ h]; exact hy, p0, v0, hp0,
+        by rw [← hkey] at hk0; exact hk0⟩
+  · intro q y hy hd p0 v0 hp0
+    by_cases h : q = c
+    · subst h
+      have := hself y hy; subst this
+      simp [hxd] at hd
+    · have hy' := hcomps q h y hy
+      have hc0 := inv.current q y hy' hd p0 v0 hp0
+      cases p0 with
+      | obs k => exact hc0
+      | comp c' =>
+        obtain ⟨z, hz, hzv, hzd⟩ := hc0
+        have hne : c' ≠ c := by
+          intro e; subst e
+          rw [hx] at hz; cases hz
+          rcases hzd with hzd | hzd
+          · simp [hxd] at hzd
+          · exact hzd
+        exact ⟨z, by show (s.setComp c _).comps c' = some z; rw [setComp_ne _ _ hne]; exact hz, hzv, hzd⟩
+
 /-- the re-evaluation branch of `Computed.__call__` for the (already stacked) Computed `c` -/
 theorem evalBody_spec {rec : Rec} (ih : IH rec) (c : Nat) (S : Nat → Prop) (hSc : ¬ S c) (hSlt : ∀ q, S q → c < q)
     {s1 s' : St} {r : R} {x : Comp} {saved : Option Nat} (w : Stat s1)
     (inv : Inv (fun q => S q ∨ q = c) NoP s1) (hx : s1.comps c = some x) (hfirst : x.first = false)
     (hsaved : ∀ p, saved = some p → S p) (h : evalBody rec c x.tree saved s1 = some (s', r)) :
-    (∀ v, r = .ok v → Inv S NoP s' ∧ StaticEq s1 s' ∧ s'.store = s1.store ∧ s'.cur = saved ∧ s'.dead = s1.dead ∧
-      (∃ y, s'.comps c = some y ∧ y.dirty = false ∧ y.value = some v ∧ y.evals = x.evals + 1) ∧
-      (∀ q y, s1.comps q = some y → y.dirty = false → s'.comps q = some y) ∧
-      (∀ q, c < q → s'.comps q = s1.comps q)) ∧
-    r ≠ .err .noneVal := by
+    Inv S NoP s' ∧ StaticEq s1 s' ∧ s'.store = s1.store ∧ s'.cur = saved ∧ s'.dead = s1.dead ∧
+    (∀ q y, s1.comps q = some y → y.dirty = false → s'.comps q = some y) ∧
+    (∀ q, c < q → s'.comps q = s1.comps q) ∧ Below (· < c) s1 s' ∧
+    (∀ v, r = .ok v → ∃ y, s'.comps c = some y ∧ y.dirty = false ∧ y.value = some v ∧ y.evals = x.evals + 1) ∧
+    (∀ e, r = .err e →
+      ∃ y, s'.comps c = some y ∧ y.first = true ∧ y.dirty = true ∧ DenFail s' y.tree ∧ y.evals = x.evals + 1) := by
   have hSc' : (fun q => S q ∨ q = c) c := Or.inr rfl
   obtain ⟨inv2, se2, st2, cur2, dead2, oth2, hc2⟩ := removeParents_spec w inv hSc' hx
   have hxd : x.dirty = true := by
@@ -1231,7 +1614,7 @@ theorem evalBody_spec {rec : Rec} (ih : IH rec) (c : Nat) (S : Nat → Prop) (hS
   generalize hs3 : ({ ((removeParents s1 c).setComp c { x with parents := [], evals := x.evals + 1 }) with
       cur := some c, depth := (removeParents s1 c).depth + 1 } : St) = s3 at h
   have inv3 : Inv (fun q => S q ∨ q = c) NoP s3 := by
-    subst hs3; exact inv3a.congr rfl rfl rfl (fun p hp => by cases hp; exact hSc')
+    subst hs3; exact inv3a.congr rfl rfl rfl rfl (fun p hp => by cases hp; exact hSc')
   have se3 : StaticEq s1 s3 := by
     subst hs3; exact se2.trans ⟨se3a.progs, se3a.decls, se3a.comps⟩
   have hx3 : s3.comps c = some { x with parents := [], evals := x.evals + 1 } := by subst hs3; simp
@@ -1247,56 +1630,87 @@ theorem evalBody_spec {rec : Rec} (ih : IH rec) (c : Nat) (S : Nat → Prop) (hS
   | none => simp [he] at h
   | some res =>
     obtain ⟨s4, r4⟩ := res
-    obtain ⟨hok, hnn⟩ := evalTree_spec ih c S hSc hSlt x.tree (w.pure c x hx) s3 s4 r4
+    obtain ⟨ps, x4, inv4, se4, hst4, hcur4, hdead4, hk4, hab4, hbl4, hc4, hx4, hmem4, hokp, herrp⟩ :=
+      evalTree_spec ih c S hSc hSlt x.tree (w.pure c x hx) s3 s4 r4
       { x with parents := [], evals := x.evals + 1 } [] (w.ranked c x hx)
-      ((w.obsKeys c x hx).mono fun k hk hs => hk ((se3.isSlot k).mp hs)) w3 inv3 hcur3 hx3 (fun e => by simp)
+      ((w.obsKind c x hx).mono fun k hk => by rw [se3.kindAt]; exact hk) w3 inv3 hcur3 hx3 (fun e => by simp)
       (fun e he => by simp at he) he
     rw [he] at h
+    have hx4t : x4.tree = x.tree := by rw [hx4]
+    have hx4f : x4.first = false := by rw [hx4]; exact hfirst
+    have hx4e : x4.evals = x.evals + 1 := by rw [hx4]
+    have hx4d : x4.dirty = true := by rw [hx4]; exact hxd
+    have hkeep : ∀ q y, s1.comps q = some y → y.dirty = false → ∀ z, (s4.setComp c z).comps q = some y := by
+      intro q y hy hd z
+      have hq : q ≠ c := by intro e; subst e; rw [hx] at hy; cases hy; simp [hxd] at hd
+      rw [setComp_ne _ _ hq]
+      exact hk4 q y (by rw [hoth3 q hq]; exact hy) hd
+    have habove : ∀ q, c < q → ∀ z, (s4.setComp c z).comps q = s1.comps q := by
+      intro q hq z
+      have hq' : q ≠ c := by omega
+      rw [setComp_ne _ _ hq', hab4 q hq, hoth3 q hq']
+    have hbelow : ∀ z, StaticEq s4 (leave saved (s4.setComp c z)) →
+        Below (· < c) s1 (leave saved (s4.setComp c z)) := by
+      intro z sez
+      have b14 : Below (· < c) s1 s4 :=
+        Below.trans hst4 se4 hk4 (Below.of_eq fun q (hq : q < c) => hoth3 q (by omega)) hbl4
+      refine Below.trans (s1 := s4) rfl sez ?_ b14 (Below.of_eq fun q (hq : q < c) => ?_)
+      · intro q y hy hd
+        have hq : q ≠ c := by intro e; subst e; rw [hc4] at hy; cases hy; simp [hx4d] at hd
+        show (s4.setComp c z).comps q = some y
+        rw [setComp_ne _ _ hq]; exact hy
+      · show (s4.setComp c z).comps q = s4.comps q
+        rw [setComp_ne _ _ (by omega)]
     cases r4 with
     | err e =>
       simp only at h
       injection h with h; injection h with h1 h2; subst h1 h2
-      exact ⟨fun v hv => (by cases hv), hnn⟩
+      obtain ⟨hpre, hdf⟩ := herrp e rfl
+      have hmf : markFailed s4 c = s4.setComp c { x4 with first := true } := by simp [markFailed, hc4]
+      rw [hmf]
+      have sef : StaticEq s4 (leave saved (s4.setComp c { x4 with first := true })) := by
+        have := StaticEq.of_setComp (s := s4) (x' := { x4 with first := true }) hc4 rfl rfl rfl
+        exact ⟨this.progs, this.decls, this.comps⟩
+      refine ⟨?_, (se3.trans se4).trans sef, hst4.trans hst3, rfl, hdead4.trans hdead3,
+        fun q y hy hd => hkeep q y hy hd _, fun q hq => habove q hq _, hbelow _ sef, fun v hv => (by cases hv),
+        fun e' he' => ?_⟩
+      · exact (Inv.fail (saved := saved) inv4 hSc hc4 (by rw [hx4t]; exact hpre) (fun e => by simpa using hmem4 e)
+          hsaved).congr rfl rfl rfl rfl (fun p hp => hsaved p hp)
+      · refine ⟨_, setComp_same _ _ _, rfl, hx4d, ?_, hx4e⟩
+        have hdf4 : DenFail s4 x4.tree := by rw [hx4t]; exact hdf
+        exact DenFail.congr (s := s4) (s' := leave saved (s4.setComp c { x4 with first := true })) rfl sef hdf4
     | ok v =>
       simp only at h
-      obtain ⟨ps, x4, hp, inv4, se4, hst4, hcur4, hdead4, hk4, hab4, hc4, hx4, hmem4, hcurr4⟩ := hok v rfl
+      obtain ⟨hp, hcurr4⟩ := hokp v rfl
       simp only [hc4] at h
       injection h with h; injection h with h1 h2; subst h1 h2
-      refine ⟨fun v' hv' => ?_, by simp⟩
-      injection hv' with hv'; subst hv'
-      have hx4t : x4.tree = x.tree := by rw [hx4]
-      have hx4f : x4.first = false := by rw [hx4]; exact hfirst
-      have hx4e : x4.evals = x.evals + 1 := by rw [hx4]
-      refine ⟨?_, ?_, hst4.trans hst3, rfl, hdead4.trans hdead3, ?_, ?_, ?_⟩
+      have sek : StaticEq s4 (leave saved (s4.setComp c { x4 with value := some v, dirty := false })) := by
+        have := StaticEq.of_setComp (s := s4) (x' := { x4 with value := some v, dirty := false }) hc4 rfl rfl rfl
+        exact ⟨this.progs, this.decls, this.comps⟩
+      refine ⟨?_, ?_, hst4.trans hst3, rfl, hdead4.trans hdead3,
+        fun q y hy hd => hkeep q y hy hd _, fun q hq => habove q hq _, hbelow _ sek, fun v' hv' => ?_,
+        fun e he => by cases he⟩
       · exact (Inv.finish (saved := saved) inv4 hSc hc4 hx4f (by rw [hx4t]; exact hp) (fun e => by simpa using hmem4 e)
-          (fun e he => hcurr4 e (by simpa using (hmem4 e).mpr he)) hsaved).congr rfl rfl rfl
+          (fun e he => hcurr4 e (by simpa using (hmem4 e).mpr he)) hsaved).congr rfl rfl rfl rfl
           (fun p hp => hsaved p hp)
       · have : StaticEq s4 (leave saved (s4.setComp c { x4 with value := some v, dirty := false })) := by
           have := StaticEq.of_setComp (s := s4) (x' := { x4 with value := some v, dirty := false }) hc4 rfl rfl rfl
           exact ⟨this.progs, this.decls, this.comps⟩
         exact (se3.trans se4).trans this
-      · exact ⟨_, setComp_same _ _ _, rfl, rfl, hx4e⟩
-      · intro q y hy hd
-        have hq : q ≠ c := by intro e; subst e; rw [hx] at hy; cases hy; simp [hxd] at hd
-        show (s4.setComp c _).comps q = some y
-        rw [setComp_ne _ _ hq]
-        exact hk4 q y (by rw [hoth3 q hq]; exact hy) hd
-      · intro q hq
-        have hq' : q ≠ c := by omega
-        show (s4.setComp c _).comps q = _
-        rw [setComp_ne _ _ hq', hab4 q hq, hoth3 q hq']
-
+      · injection hv' with hv'; subst hv'
+        exact ⟨_, setComp_same _ _ _, rfl, rfl, hx4e⟩
 
 /-- `Computed.__call__` -/
 theorem callC_spec {rec : Rec} (ih : IH rec) (c : Nat) (S : Nat → Prop) (hSc : ¬ S c) (hSlt : ∀ q, S q → c < q)
     {s s' : St} {r : R} {x : Comp} (w : Stat s) (inv : Inv S NoP s) (hx : s.comps c = some x)
     (h : callC rec c x s = some (s', r)) :
-    (∀ v, r = .ok v → Inv S NoP s' ∧ StaticEq s s' ∧ s'.store = s.store ∧ s'.cur = s.cur ∧ s'.dead = s.dead ∧
-      (∃ y, s'.comps c = some y ∧ y.dirty = false ∧ y.value = some v ∧ Justified x s' y) ∧
-      (∀ q y, s.comps q = some y → y.dirty = false → s'.comps q = some y) ∧
-      (∀ q, c < q → s'.comps q = s.comps q) ∧
+    Inv S NoP s' ∧ StaticEq s s' ∧ s'.store = s.store ∧ s'.cur = s.cur ∧ s'.dead = s.dead ∧
+    (∀ q y, s.comps q = some y → y.dirty = false → s'.comps q = some y) ∧
+    (∀ q, c < q → s'.comps q = s.comps q) ∧ Below (· ≤ c) s s' ∧
+    (∀ v, r = .ok v → (∃ y, s'.comps c = some y ∧ y.dirty = false ∧ y.value = some v ∧ Justified x s' y) ∧
       (x.dirty = false → x.value = some v)) ∧
-    r ≠ .err .noneVal := by
+    (∀ e, r = .err e →
+      ∃ y, s'.comps c = some y ∧ y.first = true ∧ y.dirty = true ∧ DenFail s' y.tree ∧ Justified x s' y) := by
   unfold callC at h
   by_cases hd : x.dirty = false
   · -- served from the cache
@@ -1309,33 +1723,47 @@ theorem callC_spec {rec : Rec} (ih : IH rec) (c : Nat) (S : Nat → Prop) (hSc :
     obtain ⟨v0, ps, hv0, _, _⟩ := hf2 hf
     rw [hv0] at h
     injection h with h; injection h with h1 h2; subst h1 h2
-    refine ⟨fun v hv => ?_, by simp⟩
+    refine ⟨inv, StaticEq.refl s, rfl, rfl, rfl, fun _ _ h _ => h, fun _ _ => rfl, Below.refl _ s, fun v hv => ?_,
+      fun e he => by cases he⟩
     injection hv with hv; subst hv
-    exact ⟨inv, StaticEq.refl s, rfl, rfl, rfl, ⟨x, hx, hd, hv0, Or.inl rfl⟩, fun _ _ h _ => h, fun _ _ => rfl,
-      fun _ => hv0⟩
+    exact ⟨⟨x, hx, hd, hv0, Or.inl rfl⟩, fun _ => hv0⟩
   · have hd' : x.dirty = true := by cases hxd : x.dirty <;> simp_all
     rw [if_neg (by simp [hd'])] at h
     have invS' : Inv (fun q => S q ∨ q = c) NoP s := inv.push hx hd'
     have hsaved : ∀ p, s.cur = some p → S p := inv.curStack
     by_cases hf : x.first = true
-    · -- first evaluation: no pre-check
+    · -- first evaluation (also after one that raised): no pre-check
       rw [if_pos hf] at h
       have inv0 : Inv (fun q => S q ∨ q = c) NoP (s.setComp c { x with first := false }) :=
         invS'.update_comp hx rfl rfl (fun _ => hd') (fun h' => absurd (Or.inr rfl) h') rfl
           (fun p v hp => invS'.parents c x hx p v hp) (fun p v hp => ⟨v, hp⟩) (fun hd0 => by simp [hd'] at hd0)
           (fun v hv hdd => ⟨hv, hdd⟩)
       have se0 : StaticEq s (s.setComp c { x with first := false }) := StaticEq.of_setComp hx rfl rfl rfl
-      obtain ⟨hok, hnn⟩ := evalBody_spec ih c S hSc hSlt (x := { x with first := false }) (w.of_staticEq se0) inv0
+      obtain ⟨i1, i2, i3, i4, i5, i7, i8, ib, hok, herr⟩ :=
+        evalBody_spec ih c S hSc hSlt (x := { x with first := false }) (w.of_staticEq se0) inv0
         (setComp_same _ _ _) rfl hsaved h
-      refine ⟨fun v hv => ?_, hnn⟩
-      obtain ⟨i1, i2, i3, i4, i5, ⟨y, hy, hyd, hyv, hye⟩, i7, i8⟩ := hok v hv
-      refine ⟨i1, se0.trans i2, i3, i4, i5, ⟨y, hy, hyd, hyv, Or.inr ⟨hye, hd', Or.inl hf⟩⟩, ?_, ?_,
-        fun h' => by simp [hd'] at h'⟩
+      refine ⟨i1, se0.trans i2, i3, i4, i5, ?_, ?_, ?_, fun v hv => ?_, fun e he => ?_⟩
       · intro q y0 hy0 hd0
         have hq : q ≠ c := by intro e; subst e; rw [hx] at hy0; cases hy0; simp [hd'] at hd0
         exact i7 q y0 (by rw [setComp_ne _ _ hq]; exact hy0) hd0
       · intro q hq
         rw [i8 q hq, setComp_ne _ _ (by omega)]
+      · refine Below.snoc (Below.eq_step (fun q (hq : q < c) => setComp_ne _ _ (by omega)) ib) ?_
+        intro x0 hx0
+        rw [hx] at hx0; cases hx0
+        cases r with
+        | ok v =>
+          obtain ⟨y, hy, _, _, hye⟩ := hok v rfl
+          have hye' : y.evals = x.evals + 1 := hye
+          exact ⟨y, hy, Or.inr ⟨by omega, hd', Or.inl hf⟩⟩
+        | err e =>
+          obtain ⟨y, hy, _, _, _, hye⟩ := herr e rfl
+          have hye' : y.evals = x.evals + 1 := hye
+          exact ⟨y, hy, Or.inr ⟨by omega, hd', Or.inl hf⟩⟩
+      · obtain ⟨y, hy, hyd, hyv, hye⟩ := hok v hv
+        exact ⟨⟨y, hy, hyd, hyv, Or.inr ⟨hye, hd', Or.inl hf⟩⟩, fun h' => by simp [hd'] at h'⟩
+      · obtain ⟨y, hy, hyf, hyd, hdf, hye⟩ := herr e he
+        exact ⟨y, hy, hyf, hyd, hdf, Or.inr ⟨hye, hd', Or.inl hf⟩⟩
     · have hf' : x.first = false := by cases hxf : x.first <;> simp_all
       rw [if_neg hf] at h
       have hxx : ({ x with first := false } : Comp) = x := by cases x; simp_all
@@ -1346,25 +1774,25 @@ theorem callC_spec {rec : Rec} (ih : IH rec) (c : Nat) (S : Nat → Prop) (hSc :
           (fun v hv hdd => ⟨hv, hdd⟩)
       have se0 : StaticEq s (s.setComp c x) := StaticEq.of_setComp hx rfl rfl rfl
       have inv0' : Inv S NoP { (s.setComp c x) with cur := none } :=
-        inv0.congr rfl rfl rfl (fun p hp => by cases hp)
+        inv0.congr rfl rfl rfl rfl (fun p hp => by cases hp)
       have se0' : StaticEq s { (s.setComp c x) with cur := none } := ⟨se0.progs, se0.decls, se0.comps⟩
       have hpre := fun (s1 : St) (r1 : Except Err Bool)
           (hp : precheck rec x.parents { (s.setComp c x) with cur := none } = some (s1, r1)) =>
         precheck_spec ih c S hSlt x.parents _ s1 r1
-          (fun e he c' hc' => (inv.parents c x hx e.1 e.2 he).1 c' hc') (w.of_staticEq se0') inv0' rfl hp
+          (fun e he => ⟨fun c' hc' => (inv.parents c x hx e.1 e.2 he).1 c' hc', by
+            obtain ⟨_, _, k, hk, _, _⟩ := inv.parents c x hx e.1 e.2 he
+            exact ⟨k, by rw [se0'.keyOf]; exact hk⟩⟩) (w.of_staticEq se0') inv0' rfl hp
       split at h
       · cases h
       · rename_i s1 e hp
-        obtain ⟨_, hnn⟩ := hpre s1 _ hp
-        injection h with h; injection h with h1 h2; subst h1 h2
-        refine ⟨fun v hv => (by cases hv), ?_⟩
-        intro he; injection he with he; subst he; exact hnn rfl
+        obtain ⟨b, hb, _⟩ := hpre s1 _ hp
+        cases hb
       · rename_i s1 hp
-        obtain ⟨hok, _⟩ := hpre s1 _ hp
-        obtain ⟨i1, i2, i3, i4, i5, i6, i7, i8, i9⟩ := hok true rfl
+        obtain ⟨b, hb, i1, i2, i3, i4, i5, i6, i7, ib, i8, i9⟩ := hpre s1 _ hp
+        injection hb with hb; subst hb
         have hc1 : s1.comps c = some x := by
           rw [i7 c (Nat.le_refl c)]; exact setComp_same _ _ _
-        have inv1 : Inv S NoP { s1 with cur := s.cur } := i1.congr rfl rfl rfl hsaved
+        have inv1 : Inv S NoP { s1 with cur := s.cur } := i1.congr rfl rfl rfl rfl hsaved
         have se1 : StaticEq s { s1 with cur := s.cur } := by
           have := se0'.trans i2
           exact ⟨this.progs, this.decls, this.comps⟩
@@ -1377,22 +1805,38 @@ theorem callC_spec {rec : Rec} (ih : IH rec) (c : Nat) (S : Nat → Prop) (hSc :
           rw [i7 q (by omega)]
           show (s.setComp c x).comps q = _
           rw [setComp_ne _ _ (by omega)]
-        obtain ⟨hok2, hnn2⟩ := evalBody_spec ih c S hSc hSlt (w.of_staticEq se1) (inv1.push (c := c) hc1 hd')
-          (by exact hc1) hf' hsaved h
-        refine ⟨fun v hv => ?_, hnn2⟩
-        obtain ⟨j1, j2, j3, j4, j5, ⟨y, hy, hyd, hyv, hye⟩, j7, j8⟩ := hok2 v hv
+        obtain ⟨j1, j2, j3, j4, j5, j7, j8, jb, hok, herr⟩ :=
+          evalBody_spec ih c S hSc hSlt (w.of_staticEq se1) (inv1.push (c := c) hc1 hd') (by exact hc1) hf' hsaved h
         obtain ⟨e0, he0, hst0⟩ := i9 rfl
-        exact ⟨j1, se1.trans j2, j3.trans i3, j4, j5.trans i5,
-          ⟨y, hy, hyd, hyv, Or.inr ⟨hye, hd', Or.inr ⟨e0, he0, Stale.keep (s := s1) j3 j7 hst0⟩⟩⟩,
+        have hstale : ∃ e ∈ x.parents, Stale s' e :=
+          ⟨e0, he0, Stale.keep (s := s1) j3 ⟨j2.progs, j2.decls, j2.comps⟩ j7 hst0⟩
+        have hbelow : Below (· ≤ c) s s' := by
+          refine Below.snoc (Below.eq_step (s1 := { (s.setComp c x) with cur := none })
+            (fun q (hq : q < c) => setComp_ne _ _ (by omega))
+            (Below.trans (s1 := s1) j3 ⟨j2.progs, j2.decls, j2.comps⟩ j7 ib
+              (Below.eq_step (s1 := { s1 with cur := s.cur }) (fun _ _ => rfl) jb))) ?_
+          intro x0 hx0
+          rw [hx] at hx0; cases hx0
+          cases r with
+          | ok v =>
+            obtain ⟨y, hy, _, _, hye⟩ := hok v rfl
+            exact ⟨y, hy, Or.inr ⟨by omega, hd', Or.inr hstale⟩⟩
+          | err e =>
+            obtain ⟨y, hy, _, _, _, hye⟩ := herr e rfl
+            exact ⟨y, hy, Or.inr ⟨by omega, hd', Or.inr hstale⟩⟩
+        refine ⟨j1, se1.trans j2, j3.trans i3, j4, j5.trans i5,
           fun q y0 hy0 hd0 => j7 q y0 (hkeep1 q y0 hy0 hd0) hd0,
-          fun q hq => (j8 q hq).trans (hab1 q hq), fun h' => by simp [hd'] at h'⟩
-
+          fun q hq => (j8 q hq).trans (hab1 q hq), hbelow, fun v hv => ?_, fun e he => ?_⟩
+        · obtain ⟨y, hy, hyd, hyv, hye⟩ := hok v hv
+          exact ⟨⟨y, hy, hyd, hyv, Or.inr ⟨hye, hd', Or.inr hstale⟩⟩, fun h' => by simp [hd'] at h'⟩
+        · obtain ⟨y, hy, hyf, hyd, hdf, hye⟩ := herr e he
+          exact ⟨y, hy, hyf, hyd, hdf, Or.inr ⟨hye, hd', Or.inr hstale⟩⟩
       · rename_i s1 hp
-        obtain ⟨hok, _⟩ := hpre s1 _ hp
-        obtain ⟨i1, i2, i3, i4, i5, i6, i7, i8, i9⟩ := hok false rfl
+        obtain ⟨b, hb, i1, i2, i3, i4, i5, i6, i7, ib, i8, i9⟩ := hpre s1 _ hp
+        injection hb with hb; subst hb
         have hc1 : s1.comps c = some x := by
           rw [i7 c (Nat.le_refl c)]; exact setComp_same _ _ _
-        have inv1 : Inv S NoP { s1 with cur := s.cur } := i1.congr rfl rfl rfl hsaved
+        have inv1 : Inv S NoP { s1 with cur := s.cur } := i1.congr rfl rfl rfl rfl hsaved
         have se1 : StaticEq s { s1 with cur := s.cur } := by
           have := se0'.trans i2
           exact ⟨this.progs, this.decls, this.comps⟩
@@ -1409,18 +1853,29 @@ theorem callC_spec {rec : Rec} (ih : IH rec) (c : Nat) (S : Nat → Prop) (hSc :
         obtain ⟨v0, ps, hv0, hpath, hmem⟩ := (inv.evald c x hx hSc).2 hf'
         injection h with h; injection h with h1 h2
         subst h1
-        have hr : r = .ok v0 := by rw [← h2, hv0]
+        have hr : r = .ok v0 := by rw [← h2, hv0]; rfl
         subst hr
-        refine ⟨fun v hv => ?_, by simp⟩
-        injection hv with hv; subst hv
         have invf : Inv S NoP (s1.setComp c { x with dirty := false }) :=
           i1.update_comp hc1 rfl rfl (fun h' => absurd h' hSc)
             (fun _ => ⟨fun h' => by simp [hf'] at h', fun _ => ⟨v0, ps, hv0, hpath, hmem⟩⟩) rfl
             (fun p v hp => i1.parents c x hc1 p v hp) (fun p v hp => ⟨v, hp⟩)
             (fun _ p v hp _ => i8 rfl (p, v) hp)
             (fun v hv hdd => by rcases hdd with hdd | hdd; simp [hd'] at hdd; exact absurd hdd (by simp [NoP]))
-        refine ⟨invf.congr rfl rfl rfl hsaved, ?_, i3, rfl, i5, ⟨_, setComp_same _ _ _, rfl, hv0, Or.inl rfl⟩, ?_, ?_,
-          fun h' => by simp [hd'] at h'⟩
+        have sef : StaticEq s1 ({ (s1.setComp c { x with dirty := false }) with cur := s.cur } : St) := by
+          have := StaticEq.of_setComp (s := s1) (x' := { x with dirty := false }) hc1 rfl rfl rfl
+          exact ⟨this.progs, this.decls, this.comps⟩
+        have hbelow : Below (· ≤ c) s ({ (s1.setComp c { x with dirty := false }) with cur := s.cur } : St) := by
+          refine Below.snoc (Below.eq_step (s1 := { (s.setComp c x) with cur := none })
+            (fun q (hq : q < c) => setComp_ne _ _ (by omega))
+            (Below.step_eq ib rfl sef ?_ (fun q (hq : q < c) => setComp_ne _ _ (by omega)))) ?_
+          · intro q y hy hdq
+            have hq : q ≠ c := by intro e; subst e; rw [hc1] at hy; cases hy; simp [hd'] at hdq
+            show (s1.setComp c _).comps q = some y
+            rw [setComp_ne _ _ hq]; exact hy
+          · intro x0 hx0
+            rw [hx] at hx0; cases hx0
+            exact ⟨_, setComp_same _ _ _, Or.inl ⟨rfl, fun h' => by simp at h'⟩⟩
+        refine ⟨invf.congr rfl rfl rfl rfl hsaved, ?_, i3, rfl, i5, ?_, ?_, hbelow, fun v hv => ?_, fun e he => (by cases he)⟩
         · have := (se0'.trans i2).trans (StaticEq.of_setComp (x' := { x with dirty := false }) hc1 rfl rfl rfl)
           exact ⟨this.progs, this.decls, this.comps⟩
         · intro q y hy hdq
@@ -1430,47 +1885,54 @@ theorem callC_spec {rec : Rec} (ih : IH rec) (c : Nat) (S : Nat → Prop) (hSc :
         · intro q hq
           show (s1.setComp c _).comps q = _
           rw [setComp_ne _ _ (by omega)]; exact hab1 q hq
+        · injection hv with hv; subst hv
+          exact ⟨⟨_, setComp_same _ _ _, rfl, hv0, Or.inl rfl⟩, fun h' => by simp [hd'] at h'⟩
 
 
 /-- `Computable.__get__` -/
 theorem getC_spec {rec : Rec} (ih : IH rec) (c : Nat) (S : Nat → Prop) (hSc : ¬ S c) (hSlt : ∀ q, S q → c < q)
     {s s' : St} {r : R} (w : Stat s) (inv : Inv S NoP s) (h : getC rec c s = some (s', r)) :
-    (∀ v, r = .ok v → PostGet S c s s' v) ∧ r ≠ .err .noneVal := by
+    (∀ v, r = .ok v → PostGet S c s s' v) ∧ (∀ e, r = .err e → PostErr S c s s') := by
   unfold getC at h
   cases hx : s.comps c with
   | none =>
     simp only [hx] at h
     injection h with h; injection h with h1 h2; subst h1 h2
-    exact ⟨fun v hv => (by cases hv), by simp⟩
+    exact ⟨fun v hv => (by cases hv), fun e _ =>
+      ⟨inv, StaticEq.refl s, rfl, rfl, rfl, Or.inl hx, fun _ _ h _ => h, fun _ _ => rfl, Below.refl _ s⟩⟩
   | some x =>
     simp only [hx] at h
     cases hcall : callC rec c x s with
     | none => simp [hcall] at h
     | some res =>
       obtain ⟨s1, r1⟩ := res
-      obtain ⟨hok1, hnn1⟩ := callC_spec ih c S hSc hSlt w inv hx hcall
+      obtain ⟨inv1, se1, hst1, hcur1, hdead1, hkeep1, hab1, hbl1, hok1, herr1⟩ :=
+        callC_spec ih c S hSc hSlt w inv hx hcall
       rw [hcall] at h
       cases r1 with
       | err e =>
         simp only at h
         injection h with h; injection h with h1 h2; subst h1 h2
-        exact ⟨fun v hv => (by cases hv), hnn1⟩
+        refine ⟨fun v hv => (by cases hv), fun e' _ => ?_⟩
+        obtain ⟨y, hy, hyf, hyd, hdf, hj⟩ := herr1 e rfl
+        exact ⟨inv1, se1, hst1, hcur1, hdead1,
+          Or.inr ⟨y, hy, hyf, hyd, hdf, fun x0 hx0 => by rw [hx] at hx0; cases hx0; exact hj⟩, hkeep1, hab1, hbl1⟩
       | ok new =>
         simp only at h
-        obtain ⟨inv1, se1, hst1, hcur1, hdead1, ⟨y1, hy1, hyd1, hyv1, hyj1⟩, hkeep1, hab1, hcl1⟩ := hok1 new rfl
+        obtain ⟨⟨y1, hy1, hyd1, hyv1, hyj1⟩, hcl1⟩ := hok1 new rfl
         have w1 : Stat s1 := w.of_staticEq se1
         -- what happens after `_add_parent` (on the enclosing evaluation, if any) succeeded
         have tail : ∀ s2, Inv S NoP s2 → StaticEq s1 s2 → s2.store = s1.store → s2.cur = s1.cur → s2.dead = s1.dead →
             (∀ q, s1.cur ≠ some q → s2.comps q = s1.comps q) →
             (∀ p xp, s1.cur = some p → s1.comps p = some xp →
               ∃ own, s2.comps p = some { xp with parents := insertParent own (.comp c) new xp.parents }) →
-            (if some new ≠ x.value then
-              match rec (.notify (x.owner, x.name) x.value (some new)) s2 with
+            (if new ≠ x.value.join then
+              match rec (.notify (x.owner, x.name) x.value.join new) s2 with
               | none => none
               | some (s3, .err e) => some (s3, .err e)
               | some (s3, .ok _) => some (s3, .ok new)
             else some (s2, R.ok new)) = some (s', r) →
-            (∀ v, r = .ok v → PostGet S c s s' v) ∧ r ≠ .err .noneVal := by
+            (∀ v, r = .ok v → PostGet S c s s' v) ∧ (∀ e, r = .err e → PostErr S c s s') := by
           intro s2 inv2 se2 hst2 hcur2 hdead2 hoth2 hpar2 h
           have w2 : Stat s2 := w1.of_staticEq se2
           have hc2 : s2.comps c = some y1 := by
@@ -1497,14 +1959,14 @@ theorem getC_spec {rec : Rec} (ih : IH rec) (c : Nat) (S : Nat → Prop) (hSc : 
               s3.cur = s2.cur → s3.dead = s2.dead → PostGet S c s s3 new := by
             intro s3 i3 e3 hc3 hs3 hcu3 hd3
             refine ⟨i3, (se1.trans se2).trans e3, by rw [hs3, hst2, hst1], by rw [hcu3, hcur2, hcur1],
-              by rw [hd3, hdead2, hdead1], ⟨y1, by rw [hc3]; exact hc2, hyd1, hyv1, ?_⟩, ?_, ?_, ?_⟩
+              by rw [hd3, hdead2, hdead1], ⟨y1, by rw [hc3]; exact hc2, hyd1, hyv1, ?_⟩, ?_, ?_, ?_, ?_⟩
             · intro x0 hx0
               rw [hx] at hx0; cases hx0
               rcases hyj1 with hj | ⟨hj1, hj2, hj3⟩
               · exact Or.inl hj
               · refine Or.inr ⟨hj1, hj2, hj3.imp id ?_⟩
                 rintro ⟨e0, he0, hst0⟩
-                refine ⟨e0, he0, Stale.keep (s := s1) (by rw [hs3, hst2]) ?_ hst0⟩
+                refine ⟨e0, he0, Stale.keep (s := s1) (by rw [hs3, hst2]) (se2.trans e3) ?_ hst0⟩
                 intro q y hy hd
                 rw [hc3, hoth2 q ?_]; exact hy
                 intro e
@@ -1512,13 +1974,25 @@ theorem getC_spec {rec : Rec} (ih : IH rec) (c : Nat) (S : Nat → Prop) (hSc : 
                 rw [hy] at hz; cases hz; simp [hd] at hzd
             · intro q y hy hd; rw [hc3]; exact hkeep2 q y hy hd
             · intro q hq hne; rw [hc3]; exact hab2 q hq hne
+            · have hk13 : ∀ q y, s1.comps q = some y → y.dirty = false → s3.comps q = some y := by
+                intro q y hy hd
+                have hne : s1.cur ≠ some q := by
+                  intro e
+                  obtain ⟨z, hz, hzd⟩ := inv1.stackDirty q (inv1.curStack q e)
+                  rw [hy] at hz; cases hz; simp [hd] at hzd
+                rw [hc3, hoth2 q hne]; exact hy
+              refine Below.step_eq hbl1 (by rw [hs3, hst2]) (se2.trans e3) hk13 fun q (hq : q ≤ c) => ?_
+              have hne : s1.cur ≠ some q := by
+                intro e
+                have := hSlt q (inv1.curStack q e); omega
+              rw [hc3, hoth2 q hne]
             · intro p xp hp hxp; rw [hc3]; exact hpar2' p xp hp hxp
-          by_cases hch : some new ≠ x.value
+          by_cases hch : new ≠ x.value.join
           · rw [if_pos hch] at h
             have hxd : x.dirty = true := by
               cases hxd : x.dirty with
               | true => rfl
-              | false => exact absurd (hcl1 hxd).symm hch
+              | false => exact absurd (by rw [hcl1 hxd]; rfl) hch
             -- every `_set_dirty` subscribed to `c` belongs to a dirty Computed: the notification is quiet
             have hquiet : ∀ q, Sub.dirty q ∈ (s2.regs x.owner).subs x.name .change →
                 ∃ y, s2.comps q = some y ∧ y.dirty = true := by
@@ -1557,19 +2031,23 @@ theorem getC_spec {rec : Rec} (ih : IH rec) (c : Nat) (S : Nat → Prop) (hSc : 
                     rcases hzd with hzd | hzd
                     · simp [hxd] at hzd
                     · exact hzd
-            rcases ih.notify (x.owner, x.name) x.value (some new) s2 with hnone | ⟨rec', hrec'⟩
+            rcases ih.notify (x.owner, x.name) x.value.join new s2 with hnone | ⟨rec', hrec'⟩
             · simp [hnone] at h
-            · obtain ⟨s3, hn3, i3, e3, hc3, hs3, hcu3, hd3⟩ :=
-                notifyT_quiet rec' (x.owner, x.name) x.value (some new) w2 inv2 hquiet
+            · have hkc : s2.kindAt (x.owner, x.name) = some .comp := by
+                obtain ⟨xc2, hxc2, ho2, hn2, _⟩ := (se1.trans se2).defined hx
+                have := w2.slotKind c xc2 hxc2
+                rwa [ho2, hn2] at this
+              obtain ⟨s3, hn3, i3, e3, hc3, hs3, hcu3, hd3⟩ :=
+                notifyT_quiet rec' (x.owner, x.name) x.value.join new w2 inv2 hkc hquiet
               rw [hrec', hn3] at h
               simp only at h
               injection h with h; injection h with h1 h2; subst h1 h2
-              refine ⟨fun v hv => ?_, by simp⟩
+              refine ⟨fun v hv => ?_, fun e he => by cases he⟩
               injection hv with hv; subst hv
               exact post s3 i3 e3 hc3 hs3 hcu3 hd3
           · rw [if_neg hch] at h
             injection h with h; injection h with h1 h2; subst h1 h2
-            refine ⟨fun v hv => ?_, by simp⟩
+            refine ⟨fun v hv => ?_, fun e he => by cases he⟩
             injection hv with hv; subst hv
             exact post s2 inv2 (StaticEq.refl s2) rfl rfl rfl rfl
         cases hc : s1.cur with
@@ -1584,9 +2062,8 @@ theorem getC_spec {rec : Rec} (ih : IH rec) (c : Nat) (S : Nat → Prop) (hSc : 
           rw [ha] at h
           cases r2 with
           | err e =>
-            simp only at h
-            injection h with h; injection h with h1 h2; subst h1 h2
-            exact ⟨fun v hv => (by cases hv), addParent_not_noneVal w1.regs ha⟩
+            exact (addParent_ok w1 hxp (r := .comp c) (k := (y1.owner, y1.name)) (by simp [St.keyOf, hy1])
+              (kindAt_names (w1.slotKind c y1 hy1)) ha).elim
           | ok u =>
             simp only at h
             obtain ⟨i1, i2, i3, i4, i5, i6, i7⟩ := addParent_spec w1 inv1 hSp hxp (r := .comp c)
@@ -1643,7 +2120,7 @@ theorem Dirtied.dirty {s s' : St} (a : Dirtied s s') {c : Nat} {x : Comp} (hx : 
   · exact ⟨_, h, rfl⟩
 
 theorem Inv.mono_P {S P P' : Nat → Prop} {s : St} (inv : Inv S P s) (h : ∀ c, P c → P' c) : Inv S P' s := by
-  refine ⟨inv.stackDirty, inv.curStack, inv.evald, inv.parents, inv.subsOf, ?_⟩
+  refine ⟨inv.stackDirty, inv.curStack, inv.evald, inv.parents, inv.subsOf, ?_, inv.userOK⟩
   intro c x hx hd p v hp
   have := inv.current c x hx hd p v hp
   cases p with
@@ -1656,7 +2133,7 @@ theorem Inv.mono_P {S P P' : Nat → Prop} {s : St} (inv : Inv S P s) (h : ∀ c
 theorem Inv.drop_P {P : Nat → Prop} {s : St} {c0 : Nat} (inv : Inv NoS (fun q => P q ∨ q = c0) s)
     (hall : ∀ q y k, s.comps q = some y → y.dirty = false → s.keyOf (.comp c0) = some k →
       Sub.dirty q ∉ (s.regs k.1).subs k.2 .change) : Inv NoS P s := by
-  refine ⟨inv.stackDirty, inv.curStack, inv.evald, inv.parents, inv.subsOf, ?_⟩
+  refine ⟨inv.stackDirty, inv.curStack, inv.evald, inv.parents, inv.subsOf, ?_, inv.userOK⟩
   intro c x hx hd p v hp
   have := inv.current c x hx hd p v hp
   cases p with
@@ -1672,266 +2149,379 @@ theorem Inv.drop_P {P : Nat → Prop} {s : St} {c0 : Nat} (inv : Inv NoS (fun q 
       obtain ⟨_, _, k, hk, _, hm⟩ := inv.parents c x hx (.comp c') v hp
       exact hall c x k hx hd hk hm
 
+/-- the same state with other values in the Observables -/
+def St.withStore (s : St) (σ : Key → V) : St := { s with store := σ }
+
+@[simp] theorem withStore_regs (s : St) (σ) : (s.withStore σ).regs = s.regs := rfl
+@[simp] theorem withStore_comps (s : St) (σ) : (s.withStore σ).comps = s.comps := rfl
+@[simp] theorem withStore_dead (s : St) (σ) : (s.withStore σ).dead = s.dead := rfl
+@[simp] theorem withStore_cur (s : St) (σ) : (s.withStore σ).cur = s.cur := rfl
+@[simp] theorem withStore_progs (s : St) (σ) : (s.withStore σ).progs = s.progs := rfl
+@[simp] theorem withStore_store (s : St) (σ) : (s.withStore σ).store = σ := rfl
+@[simp] theorem withStore_alive (s : St) (σ) : (s.withStore σ).alive = s.alive := rfl
+theorem setComp_withStore (s : St) (σ) (c : Nat) (x : Comp) :
+    (s.withStore σ).setComp c x = (s.setComp c x).withStore σ := rfl
+theorem withStore_self (s : St) : s.withStore s.store = s := rfl
+
+/-- the dirty cascade does not look at the Observables' values: it is stated for a run in which they are `σ` (G7
+    repaired: `Observable.__set__` has stored the new value already), while the invariant is that of the state with the
+    values the Computeds were evaluated with -/
 structure CascadeIH (rec : Rec) : Prop where
-  notify : ∀ (k : Key) (o n : Option Int) (s s' : St) (r : R) (P : Nat → Prop), Stat s → Inv NoS P s →
-    rec (.notify k o n) s = some (s', r) →
-    r = .ok 0 ∧ Inv NoS P s' ∧ StaticEq s s' ∧ s'.store = s.store ∧ s'.cur = s.cur ∧ s'.dead = s.dead ∧
+  notify : ∀ (k : Key) (o n : V) (s t : St) (r : R) (P : Nat → Prop) (σ : Key → V), Stat s → Inv NoS P s →
+    s.kindAt k = some .comp → rec (.notify k o n) (s.withStore σ) = some (t, r) →
+    ∃ s', t = s'.withStore σ ∧
+    r = .ok none ∧ Inv NoS P s' ∧ StaticEq s s' ∧ s'.store = s.store ∧ s'.cur = s.cur ∧ s'.dead = s.dead ∧
     SameSubs s s' ∧ Dirtied s s' ∧
     (∀ c, Sub.dirty c ∈ (s.regs k.1).subs k.2 .change → ∃ y, s'.comps c = some y ∧ y.dirty = true)
 
-theorem notifyLoop_cascade {rec : Rec} (ih : CascadeIH rec) (k : Key) (old new : Option Int) :
-    ∀ (xs act : List Sub) (s s' : St) (r : Except Err (List Sub)) (P : Nat → Prop), Stat s → Inv NoS P s →
+/-- the first pass of `_mesa_notify`: the dependents (`_set_dirty`), each with the cascade it starts -/
+theorem notifyLoop_cascade {rec : Rec} (ih : CascadeIH rec) (k : Key) (old new : V) (σ : Key → V) :
+    ∀ (xs : List Sub) (s t : St) (r : Except Err Unit) (P : Nat → Prop), Stat s → Inv NoS P s →
+    (∀ x ∈ xs, x.isDep = true) →
     (∀ c, Sub.dirty c ∈ xs → ∃ x, s.comps c = some x) →
-    notifyLoop rec k old new xs act s = some (s', r) →
-    r = .ok (act ++ xs.filter s.alive) ∧ Inv NoS P s' ∧ StaticEq s s' ∧ s'.store = s.store ∧ s'.cur = s.cur ∧
+    (∀ c, Sub.dirty c ∈ xs → Sub.dirty c ∈ (s.regs k.1).subs k.2 .change) →
+    notifyLoop rec k old new xs (s.withStore σ) = some (t, r) →
+    ∃ s', t = s'.withStore σ ∧
+    r = .ok () ∧ Inv NoS P s' ∧ StaticEq s s' ∧ s'.store = s.store ∧ s'.cur = s.cur ∧
     s'.dead = s.dead ∧ SameSubs s s' ∧ Dirtied s s' ∧
     (∀ c, Sub.dirty c ∈ xs → ∃ y, s'.comps c = some y ∧ y.dirty = true) := by
   intro xs
   induction xs with
   | nil =>
-    intro act s s' r P _ inv _ h
+    intro s t r P _ inv _ _ _ h
     simp only [notifyLoop] at h
     injection h with h; injection h with h1 h2; subst h1 h2
-    exact ⟨by simp, inv, StaticEq.refl s, rfl, rfl, rfl, SameSubs.refl s, Dirtied.refl s, fun c hc => by simp at hc⟩
+    exact ⟨s, rfl, rfl, inv, StaticEq.refl s, rfl, rfl, rfl, SameSubs.refl s, Dirtied.refl s, fun c hc => by simp at hc⟩
   | cons x xs ihx =>
-    intro act s s' r P w inv hdef h
+    intro s t r P w inv hdep hdef hsub h
     unfold notifyLoop at h
-    by_cases hal : s.alive x = true
-    · rw [if_neg (by simp [hal])] at h
-      cases x with
-      | dirty c =>
-        obtain ⟨cx, hcx⟩ := hdef c (by simp)
-        simp only [hcx] at h
-        by_cases hcd : cx.dirty = true
-        · rw [if_pos hcd] at h
-          obtain ⟨h1, h2, h3, h4, h5, h6, h7, h8, h9⟩ := ihx (act ++ [Sub.dirty c]) s s' r P w inv
-            (fun c' hc' => hdef c' (by simp [hc'])) h
-          refine ⟨by rw [h1]; simp [hal], h2, h3, h4, h5, h6, h7, h8, ?_⟩
+    cases x with
+    | user hh => have := hdep (Sub.user hh) (by simp); simp [Sub.isDep] at this
+    | dirty c =>
+      have hg : (!(s.withStore σ).alive (Sub.dirty c) ||
+          !((((s.withStore σ).regs k.1).subs k.2 .change).contains (Sub.dirty c))) = false := by
+        have := hsub c (by simp)
+        simp [this]
+      rw [hg] at h
+      simp only [Bool.false_eq_true, if_false] at h
+      obtain ⟨cx, hcx⟩ := hdef c (by simp)
+      have hcx' : (s.withStore σ).comps c = some cx := hcx
+      simp only [hcx'] at h
+      have hdep' : ∀ x ∈ xs, x.isDep = true := fun x hx => hdep x (by simp [hx])
+      by_cases hcd : cx.dirty = true
+      · rw [if_pos hcd] at h
+        obtain ⟨s', e0, h1, h2, h3, h4, h5, h6, h7, h8, h9⟩ := ihx s t r P w inv hdep'
+          (fun c' hc' => hdef c' (by simp [hc'])) (fun c' hc' => hsub c' (by simp [hc'])) h
+        refine ⟨s', e0, h1, h2, h3, h4, h5, h6, h7, h8, ?_⟩
+        intro c' hc'
+        rcases List.mem_cons.mp hc' with hc' | hc'
+        · injection hc' with hc'; subst hc'; exact h8.dirty hcx hcd
+        · exact h9 c' hc'
+      · rw [if_neg hcd] at h
+        have hcd' : cx.dirty = false := by cases hh : cx.dirty <;> simp_all
+        -- `_set_dirty`: mark, then notify the Computable's own subscribers
+        have invd : Inv NoS (fun q => P q ∨ q = c) (s.setComp c { cx with dirty := true }) := by
+          refine (inv.mono_P (P' := fun q => P q ∨ q = c) (fun q hq => Or.inl hq)).update_comp hcx rfl rfl
+            (fun h' => absurd h' (by simp [NoS])) (fun _ => ?_) rfl
+            (fun p v hp => inv.parents c cx hcx p v hp) (fun p v hp => ⟨v, hp⟩) (fun hd0 => by simp at hd0)
+            (fun v hv _ => ⟨hv, Or.inr (Or.inr rfl)⟩)
+          obtain ⟨e1, e2⟩ := inv.evald c cx hcx (by simp [NoS])
+          refine ⟨fun hf => ?_, fun hf => e2 hf⟩
+          have := (e1 hf).1; simp [hcd'] at this
+        have sed : StaticEq s (s.setComp c { cx with dirty := true }) := StaticEq.of_setComp hcx rfl rfl rfl
+        rw [setComp_withStore] at h
+        cases hn : rec (.notify (cx.owner, cx.name) cx.value.join none)
+            ((s.setComp c { cx with dirty := true }).withStore σ) with
+        | none => simp [hn] at h
+        | some res =>
+          obtain ⟨t1, r1⟩ := res
+          have hkc : (s.setComp c { cx with dirty := true }).kindAt (cx.owner, cx.name) = some .comp := by
+            rw [sed.kindAt]; exact w.slotKind c cx hcx
+          obtain ⟨s1, et1, g1, g2, g3, g4, g5, g6, g7, g8, g9⟩ :=
+            ih.notify _ _ _ _ t1 r1 _ σ (w.of_staticEq sed) invd hkc hn
+          rw [hn] at h
+          subst g1 et1
+          simp only at h
+          have sed1 : StaticEq s s1 := sed.trans g3
+          -- all subscribers of `c` are dirty now: `c` is no longer pending
+          have inv1 : Inv NoS P s1 := by
+            refine g2.drop_P ?_
+            intro q y kk hq hyd hkk hm
+            have hk0 : (s.setComp c { cx with dirty := true }).keyOf (.comp c) = some (cx.owner, cx.name) := by
+              simp [St.keyOf]
+            have : s1.keyOf (.comp c) = some (cx.owner, cx.name) := by rw [g3.keyOf]; exact hk0
+            rw [this] at hkk; cases hkk
+            obtain ⟨z, hz, hzd⟩ := g9 q ((g7.2 _ _ _ q).mp hm)
+            rw [hq] at hz; cases hz; simp [hyd] at hzd
+          have hdirt : Dirtied s s1 := by
+            refine Dirtied.trans (s' := s.setComp c { cx with dirty := true }) ?_ g8
+            intro q
+            by_cases hq : q = c
+            · subst hq
+              refine ⟨fun hnone => by simp [hcx] at hnone, fun y hy => ?_⟩
+              rw [hcx] at hy; cases hy
+              exact Or.inr ⟨hcd', setComp_same _ _ _⟩
+            · rw [setComp_ne _ _ hq]
+              exact ⟨id, fun y hy => Or.inl hy⟩
+          have hss : SameSubs s s1 := g7
+          obtain ⟨s', e0, h1, h2, h3, h4, h5, h6, h7, h8, h9⟩ := ihx s1 t r P (w.of_staticEq sed1) inv1 hdep'
+            (fun c' hc' => by
+              obtain ⟨z, hz⟩ := hdef c' (by simp [hc'])
+              obtain ⟨z', hz', _⟩ := sed1.defined hz
+              exact ⟨z', hz'⟩)
+            (fun c' hc' => (hss.2 _ _ _ c').mpr (hsub c' (by simp [hc']))) h
+          refine ⟨s', e0, h1, h2, sed1.trans h3, h4.trans g4, h5.trans g5, h6.trans g6,
+            hss.trans h7, hdirt.trans h8, ?_⟩
           intro c' hc'
           rcases List.mem_cons.mp hc' with hc' | hc'
-          · injection hc' with hc'; subst hc'; exact h8.dirty hcx hcd
+          · injection hc' with hc'; subst hc'
+            obtain ⟨z, hz, hzd⟩ := g8.dirty (setComp_same s c' { cx with dirty := true }) rfl
+            exact h8.dirty hz hzd
           · exact h9 c' hc'
-        · rw [if_neg hcd] at h
-          have hcd' : cx.dirty = false := by cases hh : cx.dirty <;> simp_all
-          -- `_set_dirty`: mark, then notify the Computable's own subscribers
-          have invd : Inv NoS (fun q => P q ∨ q = c) (s.setComp c { cx with dirty := true }) := by
-            refine (inv.mono_P (P' := fun q => P q ∨ q = c) (fun q hq => Or.inl hq)).update_comp hcx rfl rfl
-              (fun h' => absurd h' (by simp [NoS])) (fun _ => ?_) rfl
-              (fun p v hp => inv.parents c cx hcx p v hp) (fun p v hp => ⟨v, hp⟩) (fun hd0 => by simp at hd0)
-              (fun v hv _ => ⟨hv, Or.inr (Or.inr rfl)⟩)
-            obtain ⟨e1, e2⟩ := inv.evald c cx hcx (by simp [NoS])
-            refine ⟨fun hf => ?_, fun hf => e2 hf⟩
-            have := (e1 hf).1; simp [hcd'] at this
-          have sed : StaticEq s (s.setComp c { cx with dirty := true }) := StaticEq.of_setComp hcx rfl rfl rfl
-          cases hn : rec (.notify (cx.owner, cx.name) cx.value none) (s.setComp c { cx with dirty := true }) with
-          | none => simp [hn] at h
-          | some res =>
-            obtain ⟨s1, r1⟩ := res
-            obtain ⟨g1, g2, g3, g4, g5, g6, g7, g8, g9⟩ := ih.notify _ _ _ _ s1 r1 _ (w.of_staticEq sed) invd hn
-            rw [hn] at h
-            subst g1
-            simp only at h
-            have sed1 : StaticEq s s1 := sed.trans g3
-            -- all subscribers of `c` are dirty now: `c` is no longer pending
-            have inv1 : Inv NoS P s1 := by
-              refine g2.drop_P ?_
-              intro q y kk hq hyd hkk hm
-              have hk0 : (s.setComp c { cx with dirty := true }).keyOf (.comp c) = some (cx.owner, cx.name) := by
-                simp [St.keyOf]
-              have : s1.keyOf (.comp c) = some (cx.owner, cx.name) := by rw [g3.keyOf]; exact hk0
-              rw [this] at hkk; cases hkk
-              obtain ⟨z, hz, hzd⟩ := g9 q ((g7.2 _ _ _ q).mp hm)
-              rw [hq] at hz; cases hz; simp [hyd] at hzd
-            have hdirt : Dirtied s s1 := by
-              refine Dirtied.trans (s' := s.setComp c { cx with dirty := true }) ?_ g8
-              intro q
-              by_cases hq : q = c
-              · subst hq
-                refine ⟨fun hnone => by simp [hcx] at hnone, fun y hy => ?_⟩
-                rw [hcx] at hy; cases hy
-                exact Or.inr ⟨hcd', setComp_same _ _ _⟩
-              · rw [setComp_ne _ _ hq]
-                exact ⟨id, fun y hy => Or.inl hy⟩
-            have hss : SameSubs s s1 := g7
-            obtain ⟨h1, h2, h3, h4, h5, h6, h7, h8, h9⟩ := ihx (act ++ [Sub.dirty c]) s1 s' r P (w.of_staticEq sed1) inv1
-              (fun c' hc' => by
-                obtain ⟨z, hz⟩ := hdef c' (by simp [hc'])
-                obtain ⟨z', hz', _⟩ := sed1.defined hz
-                exact ⟨z', hz'⟩) h
-            have hal1 : s1.alive = s.alive := by funext y; simp [St.alive, g6]
-            refine ⟨by rw [h1, hal1]; simp [hal], h2, sed1.trans h3, h4.trans g4, h5.trans g5, h6.trans g6,
-              hss.trans h7, hdirt.trans h8, ?_⟩
-            intro c' hc'
-            rcases List.mem_cons.mp hc' with hc' | hc'
-            · injection hc' with hc'; subst hc'
-              obtain ⟨z, hz, hzd⟩ := g8.dirty (setComp_same s c' { cx with dirty := true }) rfl
-              exact h8.dirty hz hzd
-            · exact h9 c' hc'
-      | user hh =>
-        simp only [w.progs hh, readAll] at h
-        have invl : Inv NoS P { s with log := s.log ++ [⟨hh, k.1, k.2, old, new⟩] } :=
-          inv.congr rfl rfl rfl inv.curStack
-        have sel : StaticEq s { s with log := s.log ++ [⟨hh, k.1, k.2, old, new⟩] } :=
-          ⟨rfl, fun _ => rfl, (StaticEq.refl s).comps⟩
-        obtain ⟨h1, h2, h3, h4, h5, h6, h7, h8, h9⟩ := ihx (act ++ [Sub.user hh]) _ s' r P (w.of_staticEq sel) invl
-          (fun c' hc' => hdef c' (by simp [hc'])) h
-        have hal1 : St.alive { s with log := s.log ++ [⟨hh, k.1, k.2, old, new⟩] } = s.alive := rfl
-        refine ⟨by rw [h1, hal1]; simp [hal], h2, sel.trans h3, h4, h5, h6, h7, h8, ?_⟩
-        intro c' hc'
-        exact h9 c' (by simpa using hc')
-    · have hal' : s.alive x = false := by cases hh : s.alive x <;> simp_all
-      rw [if_pos (by simp [hal'])] at h
-      obtain ⟨h1, h2, h3, h4, h5, h6, h7, h8, h9⟩ := ihx act s s' r P w inv
-        (fun c' hc' => hdef c' (by simp [hc'])) h
-      refine ⟨by rw [h1]; simp [hal'], h2, h3, h4, h5, h6, h7, h8, ?_⟩
-      intro c' hc'
-      rcases List.mem_cons.mp hc' with hc' | hc'
-      · subst hc'; simp at hal'
-      · exact h9 c' hc'
 
+/-- pruning the dead references of one list changes no `_set_dirty` entry -/
+theorem SameSubs.prune (s : St) (k : Key) :
+    SameSubs s (s.setReg k.1 ((s.regs k.1).setSubs k.2 .change (((s.regs k.1).subs k.2 .change).filter s.alive))) := by
+  refine ⟨fun o => ?_, fun o n t q => ?_⟩
+  · by_cases ho : o = k.1
+    · subst ho; simp [Reg.names]
+    · simp [St.setReg, ho]
+  · by_cases ho : o = k.1
+    · subst ho
+      simp only [setReg_same, Reg.setSubs]
+      by_cases hnt : n = k.2 ∧ t = .change
+      · obtain ⟨rfl, rfl⟩ := hnt
+        simp [List.mem_filter]
+      · simp [hnt]
+    · simp [St.setReg, ho]
 
-theorem notifyT_cascade {rec : Rec} (ih : CascadeIH rec) (k : Key) (old new : Option Int) {s s' : St} {r : R}
-    {P : Nat → Prop} (w : Stat s) (inv : Inv NoS P s) (h : notifyT rec k old new s = some (s', r)) :
-    r = .ok 0 ∧ Inv NoS P s' ∧ StaticEq s s' ∧ s'.store = s.store ∧ s'.cur = s.cur ∧ s'.dead = s.dead ∧
+theorem StaticEq.prune (s : St) (k : Key) (l : List Sub) :
+    StaticEq s (s.setReg k.1 ((s.regs k.1).setSubs k.2 .change l)) := by
+  refine ⟨rfl, fun o => ?_, fun c => (StaticEq.refl s).comps c⟩
+  by_cases ho : o = k.1
+  · subst ho; simp
+  · simp [St.setReg, ho]
+
+/-- the `change` signal of a Computable that was just marked dirty -/
+theorem notifyT_cascade {rec : Rec} (ih : CascadeIH rec) (k : Key) (old new : V) (σ : Key → V) {s t : St} {r : R}
+    {P : Nat → Prop} (w : Stat s) (inv : Inv NoS P s) (hk : s.kindAt k = some .comp)
+    (h : notifyT rec k old new (s.withStore σ) = some (t, r)) :
+    ∃ s', t = s'.withStore σ ∧
+    r = .ok none ∧ Inv NoS P s' ∧ StaticEq s s' ∧ s'.store = s.store ∧ s'.cur = s.cur ∧ s'.dead = s.dead ∧
     SameSubs s s' ∧ Dirtied s s' ∧
     (∀ c, Sub.dirty c ∈ (s.regs k.1).subs k.2 .change → ∃ y, s'.comps c = some y ∧ y.dirty = true) := by
   unfold notifyT at h
-  cases hl : notifyLoop rec k old new ((s.regs k.1).subs k.2 .change) [] s with
+  simp only [withStore_regs] at h
+  cases hl : notifyLoop rec k old new (((s.regs k.1).subs k.2 .change).filter Sub.isDep) (s.withStore σ) with
   | none => simp [hl] at h
   | some res =>
-    obtain ⟨s1, r1⟩ := res
-    obtain ⟨h1, h2, h3, h4, h5, h6, h7, h8, h9⟩ := notifyLoop_cascade ih k old new _ [] s s1 r1 P w inv
+    obtain ⟨t1, r1⟩ := res
+    obtain ⟨s1, e1, h1, h2, h3, h4, h5, h6, h7, h8, h9⟩ := notifyLoop_cascade ih k old new σ _ s t1 r1 P w inv
+      (fun x hx => (List.mem_filter.mp hx).2)
       (fun c hc => by
-        obtain ⟨_, x, hx, _⟩ := inv.subsOf k.1 k.2 .change c hc
-        exact ⟨x, hx⟩) hl
+        obtain ⟨_, x, hx, _⟩ := inv.subsOf k.1 k.2 .change c ((mem_filter_isDep_dirty c _).mp hc)
+        exact ⟨x, hx⟩) (fun c hc => (mem_filter_isDep_dirty c _).mp hc) hl
     rw [hl] at h
-    subst h1
+    subst h1 e1
+    simp only at h
+    -- the second pass: the user handlers of a Computable are passive
+    have hpass : ∀ hh, Sub.user hh ∈ (s.regs k.1).subs k.2 .change → s1.progs hh = [] := by
+      intro hh hm
+      rw [h3.progs]
+      rcases inv.userOK k.1 k.2 .change hh hm with hp | hp
+      · exact hp
+      · rw [hk] at hp; cases hp
+    obtain ⟨lg, hq⟩ := notifyLoop_quiet rec k old new (((s.regs k.1).subs k.2 .change).filter fun x => !x.isDep)
+      (s1.withStore σ) (fun hh hm => hpass hh ((mem_filter_notDep_user hh _).mp hm))
+      (fun c hc => absurd hc (mem_filter_notDep_dirty c _))
+    rw [hq] at h
     simp only at h
     injection h with h; injection h with g1 g2; subst g1 g2
-    have hss : SameSubs s1 (s1.setReg k.1 ((s1.regs k.1).setSubs k.2 .change
-        ([] ++ ((s.regs k.1).subs k.2 .change).filter s.alive))) := by
-      refine ⟨fun o => ?_, fun o n t q => ?_⟩
-      · by_cases ho : o = k.1
-        · subst ho; simp [Reg.names]
-        · simp [St.setReg, ho]
-      · by_cases ho : o = k.1
-        · subst ho
-          simp only [setReg_same, Reg.setSubs]
-          by_cases hnt : n = k.2 ∧ t = .change
-          · obtain ⟨rfl, rfl⟩ := hnt
-            simp only [and_self, if_true, List.nil_append, List.mem_filter, alive_dirty, and_true]
-            exact (h7.2 _ _ _ q).symm
-          · simp [hnt]
-        · simp [St.setReg, ho]
-    refine ⟨rfl, h2.congr_regs rfl rfl rfl hss.1 hss.2, ?_, h4, h5, h6, h7.trans hss, ?_, ?_⟩
-    · refine h3.trans ⟨rfl, fun o => ?_, fun c => (StaticEq.refl s1).comps c⟩
-      by_cases ho : o = k.1
-      · subst ho; simp
-      · simp [St.setReg, ho]
+    have invl : Inv NoS P { s1 with log := s1.log ++ lg } := h2.congr rfl rfl rfl rfl h2.curStack
+    have sel : StaticEq s1 { s1 with log := s1.log ++ lg } := ⟨rfl, fun _ => rfl, (StaticEq.refl s1).comps⟩
+    refine ⟨({ s1 with log := s1.log ++ lg } : St).setReg k.1 ((s1.regs k.1).setSubs k.2 .change
+        (((s1.regs k.1).subs k.2 .change).filter s1.alive)), rfl, rfl, ?_, ?_, h4, h5, h6, ?_, ?_, ?_⟩
+    · have hs := SameSubs.prune ({ s1 with log := s1.log ++ lg } : St) k
+      exact invl.congr_regs rfl rfl rfl hs.1 hs.2 (invl.userOK.prune k)
+    · exact (h3.trans sel).trans (StaticEq.prune _ k _)
+    · exact h7.trans (SameSubs.prune ({ s1 with log := s1.log ++ lg } : St) k)
     · exact h8
-    · exact h9
+    · intro c hc
+      exact h9 c ((mem_filter_isDep_dirty c _).mpr hc)
 
 theorem cascade_exec (f : Nat) : CascadeIH (exec f) := by
   induction f with
-  | zero => exact ⟨fun k o n s s' r P _ _ h => by simp [exec] at h⟩
-  | succ f ih => exact ⟨fun k o n s s' r P w inv h => notifyT_cascade ih k o n w inv h⟩
+  | zero => exact ⟨fun k o n s t r P σ _ _ _ h => by simp [exec] at h⟩
+  | succ f ih => exact ⟨fun k o n s t r P σ w inv hk h => notifyT_cascade ih k o n σ w inv hk h⟩
 
-/-- a top-level assignment `owner.name = v` -/
-theorem assign_spec (f : Nat) {k : Key} {v : Int} {s s' : St} {r : R} (w : Stat s) (inv : Inv NoS NoP s)
+/-- what a user handler does after recording: it reads Computables (at top level, everything propagated) -/
+theorem readAll_spec {rec : Rec} (ih : IH rec) : ∀ (cs : List Nat) (s s' : St) (r : R), Stat s → Inv NoS NoP s →
+    readAll rec cs s = some (s', r) →
+    Inv NoS NoP s' ∧ StaticEq s s' ∧ s'.store = s.store ∧ s'.cur = s.cur ∧ s'.dead = s.dead := by
+  intro cs
+  induction cs with
+  | nil =>
+    intro s s' r _ inv h
+    simp only [readAll] at h
+    injection h with h; injection h with h1 _; subst h1
+    exact ⟨inv, StaticEq.refl s, rfl, rfl, rfl⟩
+  | cons c cs ihc =>
+    intro s s' r w inv h
+    simp only [readAll] at h
+    cases hg : rec (.readC c) s with
+    | none => simp [hg] at h
+    | some res =>
+      obtain ⟨s1, r1⟩ := res
+      obtain ⟨hok, herr⟩ := ih.get c s s1 r1 NoS w inv (by simp [NoS]) (fun q hq => by simp [NoS] at hq) hg
+      rw [hg] at h
+      cases r1 with
+      | err e =>
+        simp only at h
+        injection h with h; injection h with h1 _; subst h1
+        have pe := herr e rfl
+        exact ⟨pe.inv, pe.stat, pe.store, pe.cur, pe.dead⟩
+      | ok v =>
+        simp only at h
+        have pg := hok v rfl
+        obtain ⟨i1, i2, i3, i4, i5⟩ := ihc s1 s' r (w.of_staticEq pg.stat) pg.inv h
+        exact ⟨i1, pg.stat.trans i2, i3.trans pg.store, i4.trans pg.cur, i5.trans pg.dead⟩
+
+/-- the second pass of `_mesa_notify` at top level: the user handlers, which may read Computables -/
+theorem notifyLoop_users {rec : Rec} (ih : IH rec) (k : Key) (old new : V) :
+    ∀ (xs : List Sub) (s s' : St) (r : Except Err Unit), (∀ x ∈ xs, x.isDep = false) → Stat s → Inv NoS NoP s →
+    notifyLoop rec k old new xs s = some (s', r) →
+    Inv NoS NoP s' ∧ StaticEq s s' ∧ s'.store = s.store ∧ s'.cur = s.cur ∧ s'.dead = s.dead := by
+  intro xs
+  induction xs with
+  | nil =>
+    intro s s' r _ _ inv h
+    simp only [notifyLoop] at h
+    injection h with h; injection h with h1 _; subst h1
+    exact ⟨inv, StaticEq.refl s, rfl, rfl, rfl⟩
+  | cons x xs ihx =>
+    intro s s' r hdep w inv h
+    have hdep' : ∀ x ∈ xs, x.isDep = false := fun x hx => hdep x (by simp [hx])
+    unfold notifyLoop at h
+    split at h
+    · exact ihx s s' r hdep' w inv h
+    · cases x with
+      | dirty c => have := hdep (Sub.dirty c) (by simp); simp [Sub.isDep] at this
+      | user hh =>
+        simp only at h
+        have invl : Inv NoS NoP { s with log := s.log ++ [⟨hh, k.1, k.2, old, new⟩] } :=
+          inv.congr rfl rfl rfl rfl inv.curStack
+        have sel : StaticEq s { s with log := s.log ++ [⟨hh, k.1, k.2, old, new⟩] } :=
+          ⟨rfl, fun _ => rfl, (StaticEq.refl s).comps⟩
+        cases hg : readAll rec (s.progs hh) { s with log := s.log ++ [⟨hh, k.1, k.2, old, new⟩] } with
+        | none => simp [hg] at h
+        | some res =>
+          obtain ⟨s1, r1⟩ := res
+          obtain ⟨g1, g2, g3, g4, g5⟩ := readAll_spec ih _ _ s1 r1 (w.of_staticEq sel) invl hg
+          rw [hg] at h
+          cases r1 with
+          | err e =>
+            simp only at h
+            injection h with h; injection h with h1 _; subst h1
+            exact ⟨g1, sel.trans g2, g3, g4, g5⟩
+          | ok u =>
+            simp only at h
+            obtain ⟨i1, i2, i3, i4, i5⟩ := ihx s1 s' r hdep' (w.of_staticEq (sel.trans g2)) g1 h
+            exact ⟨i1, (sel.trans g2).trans i2, i3.trans g3, i4.trans g4, i5.trans g5⟩
+
+/-- a top-level assignment `owner.name = v` (G7 repaired): the value is stored, every dependent is marked dirty, then
+    the user handlers run — they may read Computables —; whether it returns or a handler raises, the invariant holds
+    afterwards and the Observable holds `v` -/
+theorem assign_spec (f : Nat) {k : Key} {v : V} {s s' : St} {r : R} (w : Stat s) (inv : Inv NoS NoP s)
     (hcur : s.cur = none) (h : exec f (.assign k v) s = some (s', r)) :
-    r = .ok 0 ∧ Inv NoS NoP s' ∧ StaticEq s s' ∧ s'.cur = none ∧
-    s'.store = (fun k' => if k' = k then v else s.store k') ∧
-    (∀ c x, s.comps c = some x → ∃ x', s'.comps c = some x' ∧ x'.evals = x.evals) := by
+    Inv NoS NoP s' ∧ StaticEq s s' ∧ s'.cur = none ∧
+    s'.store = (fun k' => if k' = k then v else s.store k') := by
   cases f with
   | zero => simp [exec] at h
   | succ f =>
-    simp only [exec, stepF, assignT, hcur, Option.isSome_none, Bool.false_eq_true, false_and, if_false] at h
-    cases hn : exec f (.notify k (some (s.store k)) (some v)) s with
+    simp only [exec, stepF, assignT] at h
+    rw [if_neg (by simp [hcur])] at h
+    generalize hσ : (fun k' => if k' = k then v else s.store k') = σ at h ⊢
+    have hs0 : ({ s with store := σ } : St) = s.withStore σ := rfl
+    rw [hs0] at h
+    cases hn : exec f (.notify k (s.store k) v) (s.withStore σ) with
     | none => simp [hn] at h
     | some res =>
-      obtain ⟨s1, r1⟩ := res
-      obtain ⟨g1, g2, g3, g4, g5, g6, g7, g8, g9⟩ := (cascade_exec f).notify _ _ _ s s1 r1 NoP w inv hn
+      obtain ⟨t, rt⟩ := res
+      have key : Inv NoS NoP t ∧ StaticEq s t ∧ t.cur = none ∧ t.store = σ := by
+        cases f with
+        | zero => simp [exec] at hn
+        | succ f =>
+          simp only [exec, stepF] at hn
+          unfold notifyT at hn
+          simp only [withStore_regs] at hn
+          cases hl : notifyLoop (exec f) k (s.store k) v (((s.regs k.1).subs k.2 .change).filter Sub.isDep)
+              (s.withStore σ) with
+          | none => simp [hl] at hn
+          | some res1 =>
+            obtain ⟨t1, r1⟩ := res1
+            obtain ⟨s1, e1, h1, h2, h3, h4, h5, h6, h7, h8, h9⟩ :=
+              notifyLoop_cascade (cascade_exec f) k (s.store k) v σ _ s t1 r1 NoP w inv
+              (fun x hx => (List.mem_filter.mp hx).2)
+              (fun c hc => by
+                obtain ⟨_, x, hx, _⟩ := inv.subsOf k.1 k.2 .change c ((mem_filter_isDep_dirty c _).mp hc)
+                exact ⟨x, hx⟩) (fun c hc => (mem_filter_isDep_dirty c _).mp hc) hl
+            rw [hl] at hn
+            subst h1 e1
+            simp only at hn
+            -- with every dependent of `k` dirty, the new value is consistent with all clean Computeds
+            have inv1 : Inv NoS NoP (s1.withStore σ) := by
+              refine ⟨h2.stackDirty, fun p hp => h2.curStack p hp, h2.evald, ?_, h2.subsOf, ?_, h2.userOK⟩
+              · intro c x hx p0 v0 hp0
+                exact h2.parents c x hx p0 v0 hp0
+              · intro c x hx hd p0 v0 hp0
+                have hc0 := h2.current c x hx hd p0 v0 hp0
+                cases p0 with
+                | comp c' => exact hc0
+                | obs k' =>
+                  show σ k' = v0
+                  rw [← hσ]
+                  by_cases hk : k' = k
+                  · subst hk
+                    exfalso
+                    obtain ⟨_, _, kk, hkk, _, hm⟩ := h2.parents c x hx (.obs k') v0 hp0
+                    simp only [St.keyOf] at hkk; cases hkk
+                    obtain ⟨z, hz, hzd⟩ := h9 c ((mem_filter_isDep_dirty c _).mpr ((h7.2 _ _ _ c).mp hm))
+                    have hx' : s1.comps c = some x := hx
+                    rw [hx'] at hz; cases hz; simp [hd] at hzd
+                  · simp only [hk, if_false]
+                    have : s1.store k' = v0 := hc0
+                    rw [h4] at this; exact this
+            have se1 : StaticEq s (s1.withStore σ) := ⟨h3.progs, h3.decls, h3.comps⟩
+            cases hl2 : notifyLoop (exec f) k (s.store k) v
+                (((s.regs k.1).subs k.2 .change).filter fun x => !x.isDep) (s1.withStore σ) with
+            | none => simp [hl2] at hn
+            | some res2 =>
+              obtain ⟨t2, r2⟩ := res2
+              obtain ⟨g1, g2, g3, g4, g5⟩ := notifyLoop_users (exec_IH f) k (s.store k) v _ _ t2 r2
+                (fun x hx => by simpa using (List.mem_filter.mp hx).2) (w.of_staticEq se1) inv1 hl2
+              rw [hl2] at hn
+              cases r2 with
+              | error e =>
+                simp only at hn
+                injection hn with hn; injection hn with hn1 _; subst hn1
+                exact ⟨g1, se1.trans g2, g4.trans (h5.trans hcur), g3⟩
+              | ok u =>
+                simp only at hn
+                injection hn with hn; injection hn with hn1 _; subst hn1
+                have hs := SameSubs.prune t2 k
+                refine ⟨g1.congr_regs rfl rfl rfl hs.1 hs.2 (g1.userOK.prune k),
+                  (se1.trans g2).trans (StaticEq.prune _ k _), g4.trans (h5.trans hcur), g3⟩
       rw [hn] at h
-      subst g1
-      simp only at h
-      injection h with h; injection h with h1 h2; subst h1 h2
-      refine ⟨rfl, ?_, ⟨g3.progs, g3.decls, g3.comps⟩, g5.trans hcur, by simp [g4], ?_⟩
-      · -- only `current` looks at the store
-        have hsl : ∀ k', St.isSlot { s1 with store := fun k' => if k' = k then v else s1.store k' } k' ↔
-            s1.isSlot k' := fun _ => Iff.rfl
-        refine ⟨g2.stackDirty, fun p hp => g2.curStack p hp, g2.evald, ?_, g2.subsOf, ?_⟩
-        · intro c x hx p0 v0 hp0
-          exact g2.parents c x hx p0 v0 hp0
-        · intro c x hx hd p0 v0 hp0
-          have hc0 := g2.current c x hx hd p0 v0 hp0
-          cases p0 with
-          | comp c' => exact hc0
-          | obs k' =>
-            show (if k' = k then v else s1.store k') = v0
-            by_cases hk : k' = k
-            · subst hk
-              exfalso
-              obtain ⟨_, _, kk, hkk, _, hm⟩ := g2.parents c x hx (.obs k') v0 hp0
-              simp only [St.keyOf] at hkk; cases hkk
-              obtain ⟨z, hz, hzd⟩ := g9 c ((g7.2 _ _ _ c).mp hm)
-              have hx' : s1.comps c = some x := hx
-              rw [hx'] at hz; cases hz; simp [hd] at hzd
-            · simp only [hk, if_false]; exact hc0
-      · intro c x hx
-        rcases (g8 c).2 x hx with h' | ⟨_, h'⟩
-        · exact ⟨x, h', rfl⟩
-        · exact ⟨_, h', rfl⟩
+      cases rt with
+      | err e =>
+        simp only at h
+        injection h with h; injection h with h1 _; subst h1
+        exact key
+      | ok u =>
+        simp only at h
+        injection h with h; injection h with h1 _; subst h1
+        exact key
 
-
-/-! ### what a function returns "if evaluated right now" -/
-
-/-- the denotation of a pure function in state `s`: Observables are looked up in the store, Computables are
-    evaluated by running *their* function (not by looking at any cache) -/
-inductive Den (s : St) : Tree → Int → Prop
-  | ret (v : Int) : Den s (.ret v) v
-  | read (k : Key) (cont : Int → Tree) (v : Int) (h : Den s (cont (s.store k)) v) : Den s (.read k cont) v
-  | readC (c : Nat) (cont : Int → Tree) (x : Comp) (a v : Int) (hx : s.comps c = some x) (ha : Den s x.tree a)
-      (h : Den s (cont a) v) : Den s (.readC c cont) v
-
-theorem pathR_den {s : St} {t : Tree} {ps : List (PRef × Int)} {v : Int} (hp : PathR t ps v)
-    (hobs : ∀ k x, (PRef.obs k, x) ∈ ps → s.store k = x)
-    (hcomp : ∀ c x, (PRef.comp c, x) ∈ ps → ∃ y, s.comps c = some y ∧ Den s y.tree x) : Den s t v := by
-  induction hp with
-  | ret v => exact .ret v
-  | read k cont x ps v _ ih =>
-    have hx : s.store k = x := hobs k x (by simp)
-    subst hx
-    exact .read k cont v (ih (fun k' x' h' => hobs k' x' (by simp [h'])) (fun c x' h' => hcomp c x' (by simp [h'])))
-  | readC c cont x ps v _ ih =>
-    obtain ⟨y, hy, hd⟩ := hcomp c x (by simp)
-    exact .readC c cont y x v hy hd
-      (ih (fun k' x' h' => hobs k' x' (by simp [h'])) (fun c' x' h' => hcomp c' x' (by simp [h'])))
-
-/-- **a clean Computed holds the value its function would return now** -/
-theorem clean_den {s : St} (inv : Inv NoS NoP s) :
-    ∀ c x, s.comps c = some x → x.dirty = false → ∃ v, x.value = some v ∧ Den s x.tree v := by
-  intro c
-  induction c using Nat.strongRecOn with
-  | _ c ih =>
-    intro x hx hd
-    obtain ⟨e1, e2⟩ := inv.evald c x hx (by simp [NoS])
-    have hf : x.first = false := by
-      cases hxf : x.first with
-      | false => rfl
-      | true => have := (e1 hxf).1; simp [hd] at this
-    obtain ⟨v, ps, hv, hp, hmem⟩ := e2 hf
-    refine ⟨v, hv, pathR_den hp ?_ ?_⟩
-    · intro k a ha
-      exact inv.current c x hx hd (.obs k) a ((hmem _).mp ha)
-    · intro c' a ha
-      have hpar := (hmem _).mp ha
-      obtain ⟨y, hy, hyv, hyd⟩ := inv.current c x hx hd (.comp c') a hpar
-      have hlt : c' < c := (inv.parents c x hx (.comp c') a hpar).1 c' rfl
-      rcases hyd with hyd | hyd
-      · obtain ⟨v', hv', hden⟩ := ih c' hlt y hy hyd
-        rw [hyv] at hv'; cases hv'
-        exact ⟨y, hy, hden⟩
-      · exact absurd hyd (by simp [NoP])
 
 /-! ### the top-level operations -/
 
@@ -1964,7 +2554,8 @@ theorem define_pre {s : St} {c o n : Nat} {t : Tree} (w : Stat s) (inv : Inv NoS
     by_cases hq : q = c
     · subst hq; rw [setComp_same] at hy; cases hy; exact Or.inr rfl
     · rw [setComp_ne _ _ hq] at hy; exact Or.inl ⟨q, y, hy, rfl⟩
-  refine ⟨⟨w.progs, w.regs, ?_, ?_, ?_, ?_, ?_⟩, ⟨fun q hq => by simp [NoS] at hq, fun p hp => inv.curStack p hp, ?_, ?_, ?_, ?_⟩⟩
+  refine ⟨⟨w.regs, ?_, ?_, ?_, ?_, ?_⟩,
+    ⟨fun q hq => by simp [NoS] at hq, fun p hp => inv.curStack p hp, ?_, ?_, ?_, ?_, inv.userOK⟩⟩
   · intro q y hy
     by_cases hq : q = c
     · subst hq; rw [setComp_same] at hy; cases hy; exact ok.pure
@@ -1997,7 +2588,7 @@ theorem define_pre {s : St} {c o n : Nat} {t : Tree} (w : Stat s) (inv : Inv NoS
   · intro q y hy _
     by_cases hq : q = c
     · subst hq; rw [setComp_same] at hy; cases hy
-      exact ⟨fun _ => ⟨rfl, rfl⟩, fun h => by simp at h⟩
+      exact ⟨fun _ => ⟨rfl, [], .nil _, fun e => Iff.rfl⟩, fun h => by simp at h⟩
     · rw [setComp_ne _ _ hq] at hy; exact inv.evald q y hy (by simp [NoS])
   · intro q y hy p v hp
     by_cases hq : q = c
@@ -2019,18 +2610,18 @@ theorem define_pre {s : St} {c o n : Nat} {t : Tree} (w : Stat s) (inv : Inv NoS
           exact absurd ok.slotKind (by
             intro hcomp
             -- find the key among the reads of `q`'s function
-            have hk0 : ∀ (t' : Tree) ps v', ObsKeys (fun k => s.kindAt k = some .obs) t' → PathR t' ps v' →
+            have hk0 : ∀ (t' : Tree) ps, ObsKeys (fun k => s.kindAt k = some .obs) t' → Prefix t' ps →
                 ∀ k x, (PRef.obs k, x) ∈ ps → s.kindAt k = some .obs := by
-              intro t' ps v' hot hpr
+              intro t' ps hot hpr
               induction hpr with
-              | ret _ => intro k x hm; simp at hm
-              | read k0 cont x0 ps0 v0 _ ih =>
+              | nil _ => intro k x hm; simp at hm
+              | read k0 cont x0 ps0 _ ih =>
                 cases hot with | read _ _ hk00 hc00 =>
                 intro k x hm
                 rcases List.mem_cons.mp hm with hm | hm
                 · injection hm with hm1 _; injection hm1 with hm1; subst hm1; exact hk00
                 · exact ih (hc00 _) k x hm
-              | readC c0 cont x0 ps0 v0 _ ih =>
+              | readC c0 cont x0 ps0 _ ih =>
                 cases hot with | readC _ _ hc00 =>
                 intro k x hm
                 rcases List.mem_cons.mp hm with hm | hm
@@ -2038,9 +2629,11 @@ theorem define_pre {s : St} {c o n : Nat} {t : Tree} (w : Stat s) (inv : Inv NoS
                 · exact ih (hc00 _) k x hm
             by_cases hyf : y.first = true
             · obtain ⟨e1, _⟩ := inv.evald q y hy (by simp [NoS])
-              rw [(e1 hyf).2] at hp; simp at hp
+              obtain ⟨_, ps, hpr, hmem⟩ := e1 hyf
+              have := hk0 y.tree ps (w.obsKind q y hy) hpr (o, n) v ((hmem _).mpr hp)
+              rw [hcomp] at this; cases this
             · obtain ⟨v', ps, _, hpr, hmem⟩ := e2 (by cases hh : y.first <;> simp_all)
-              have := hk0 y.tree ps v' (w.obsKind q y hy) hpr (o, n) v ((hmem _).mpr hp)
+              have := hk0 y.tree ps (w.obsKind q y hy) hpr.prefix (o, n) v ((hmem _).mpr hp)
               rw [hcomp] at this; cases this))
   · intro o' n' t' q hq
     obtain ⟨ht, y, hy, p, v, hp, hk⟩ := inv.subsOf o' n' t' q hq
@@ -2063,45 +2656,68 @@ structure Good (s : St) : Prop where
 
 inductive OpOK (s : St) : Op → Prop
   | define (c o n : Nat) (t : Tree) (h : DefineOK s c o n t) : OpOK s (.define c o n t)
-  | assign (k : Key) (v : Int) : OpOK s (.assign k v)
+  | assign (k : Key) (v : V) : OpOK s (.assign k v)
   | read (c : Nat) : OpOK s (.read c)
-  | observe (k : Key) (h : Nat) : OpOK s (.observe k h)
+  | observe (k : Key) (h : Nat) (hp : s.progs h = [] ∨ s.kindAt k = some .obs) : OpOK s (.observe k h)
   | unobserve (k : Key) (h : Nat) : OpOK s (.unobserve k h)
   | drop (h : Nat) : OpOK s (.drop h)
 
+/-- reading a Computable at top level, whether the read returns or raises -/
+theorem read_spec_all (fuel : Nat) {s s' : St} {c : Nat} {r : R} (g : Good s)
+    (h : exec fuel (.readC c) s = some (s', r)) :
+    Good s' ∧ s'.store = s.store ∧ StaticEq s s' ∧
+    (∀ v, r = .ok v → ∃ x, s'.comps c = some x ∧ x.dirty = false ∧ x.value = some v ∧ Den s' x.tree v) ∧
+    (∀ e, r = .err e → s.comps c = none ∨
+      ∃ x, s'.comps c = some x ∧ x.first = true ∧ x.dirty = true ∧ DenFail s' x.tree) := by
+  obtain ⟨hok, herr⟩ := (exec_IH fuel).get c s s' r NoS g.stat g.inv (by simp [NoS]) (fun q hq => by simp [NoS] at hq) h
+  cases r with
+  | ok v =>
+    have pg := hok v rfl
+    obtain ⟨y, hy, hyd, hyv, _⟩ := pg.clean
+    obtain ⟨v', hv', hden⟩ := clean_den pg.inv c y hy hyd
+    rw [hyv] at hv'; cases hv'
+    refine ⟨⟨g.stat.of_staticEq pg.stat, pg.inv, pg.cur.trans g.cur⟩, pg.store, pg.stat, fun v' hv' => ?_,
+      fun e he => (by cases he)⟩
+    injection hv' with hv'; subst hv'
+    exact ⟨y, hy, hyd, hyv, hden⟩
+  | err e =>
+    have pe := herr e rfl
+    refine ⟨⟨g.stat.of_staticEq pe.stat, pe.inv, pe.cur.trans g.cur⟩, pe.store, pe.stat, fun v hv => (by cases hv),
+      fun _ _ => ?_⟩
+    rcases pe.failed with hnone | ⟨y, hy, hyf, hyd, hdf, _⟩
+    · exact Or.inl hnone
+    · exact Or.inr ⟨y, hy, hyf, hyd, hdf⟩
+
 /-- reading a Computable at top level -/
-theorem read_spec (fuel : Nat) {s s' : St} {c : Nat} {v : Int} (g : Good s)
+theorem read_spec (fuel : Nat) {s s' : St} {c : Nat} {v : V} (g : Good s)
     (h : exec fuel (.readC c) s = some (s', .ok v)) :
     Good s' ∧ s'.store = s.store ∧ StaticEq s s' ∧
     ∃ x, s'.comps c = some x ∧ x.dirty = false ∧ x.value = some v ∧ Den s' x.tree v := by
-  obtain ⟨hok, _⟩ := (exec_IH fuel).get c s s' (.ok v) NoS g.stat g.inv (by simp [NoS]) (fun q hq => by simp [NoS] at hq) h
-  have pg := hok v rfl
-  obtain ⟨y, hy, hyd, hyv, _⟩ := pg.clean
-  obtain ⟨v', hv', hden⟩ := clean_den pg.inv c y hy hyd
-  rw [hyv] at hv'; cases hv'
-  exact ⟨⟨g.stat.of_staticEq pg.stat, pg.inv, pg.cur.trans g.cur⟩, pg.store, pg.stat, y, hy, hyd, hyv, hden⟩
+  obtain ⟨g', hst, se, hok, _⟩ := read_spec_all fuel g h
+  exact ⟨g', hst, se, hok v rfl⟩
 
 theorem mem_dirty_append_user (q h : Nat) (l : List Sub) : Sub.dirty q ∈ l ++ [Sub.user h] ↔ Sub.dirty q ∈ l := by
   simp
 
-theorem step_good (fuel : Nat) {s s' : St} {op : Op} {v : Int} (g : Good s) (ok : OpOK s op)
-    (h : step fuel s op = some (s', .ok v)) : Good s' := by
+/-- every top-level operation — returning or raising — leaves a quiescent state in which the invariant holds -/
+theorem step_good (fuel : Nat) {s s' : St} {op : Op} {r : R} (g : Good s) (ok : OpOK s op)
+    (h : step fuel s op = some (s', r)) : Good s' := by
   cases ok with
   | define c o n t hd =>
     obtain ⟨w0, i0⟩ := define_pre g.stat g.inv hd
-    exact (read_spec fuel ⟨w0, i0, g.cur⟩ h).1
+    exact (read_spec_all fuel ⟨w0, i0, g.cur⟩ h).1
   | assign k x =>
-    obtain ⟨_, i, se, hc, _, _⟩ := assign_spec fuel g.stat g.inv g.cur h
+    obtain ⟨i, se, hc, _⟩ := assign_spec fuel g.stat g.inv g.cur h
     exact ⟨g.stat.of_staticEq se, i, hc⟩
-  | read c => exact (read_spec fuel g h).1
-  | observe k hh =>
+  | read c => exact (read_spec_all fuel g h).1
+  | observe k hh hprog =>
     simp only [step] at h
     rcases Reg.observe_spec (g.stat.regs k.1).wf (.one k.2) (.one .change) (Sub.user hh) with
       ⟨_, r', ho, hdecl, hs⟩ | ⟨_, ho⟩
     · rw [ho] at h
       injection h with h; injection h with h1 _; subst h1
       have se : StaticEq s (s.setReg k.1 r') := StaticEq.of_setReg hdecl
-      refine ⟨g.stat.of_staticEq se, g.inv.congr_regs rfl rfl rfl ?_ ?_, g.cur⟩
+      refine ⟨g.stat.of_staticEq se, g.inv.congr_regs rfl rfl rfl ?_ ?_ ?_, g.cur⟩
       · intro o
         by_cases ho' : o = k.1
         · subst ho'; rw [setReg_same]; exact Reg.names_of_decls hdecl
@@ -2113,16 +2729,33 @@ theorem step_good (fuel : Nat) {s s' : St} {op : Op} {v : Int} (g : Good s) (ok 
           · exact mem_dirty_append_user q hh _
           · exact Iff.rfl
         · rw [setReg_ne _ _ ho']
-    · rw [ho] at h; injection h with h; injection h with _ h2; cases h2
+      · intro o n t h' hm
+        rw [se.kindAt]
+        by_cases ho' : o = k.1
+        · subst ho'
+          rw [setReg_same, hs] at hm
+          split at hm
+          · rename_i hc
+            rcases List.mem_append.mp hm with hm | hm
+            · exact g.inv.userOK _ n t h' hm
+            · simp only [List.mem_singleton, Sub.user.injEq] at hm
+              subst hm
+              simp only [Sel.matches, decide_eq_true_eq] at hc
+              have : (k.1, n) = k := by rw [← hc.1]
+              rw [this]; exact hprog
+          · exact g.inv.userOK _ n t h' hm
+        · rw [setReg_ne _ _ ho'] at hm
+          exact g.inv.userOK o n t h' hm
+    · rw [ho] at h; injection h with h; injection h with h1 _; subst h1; exact g
   | unobserve k hh =>
     simp only [step] at h
     rcases Reg.unobserve_spec (g.stat.regs k.1).wf s.alive (.one k.2) (.one .change) (Sub.user hh) with
       ⟨_, ho⟩ | ⟨_, r', ho, hdecl, hs⟩
-    · rw [ho] at h; injection h with h; injection h with _ h2; cases h2
+    · rw [ho] at h; injection h with h; injection h with h1 _; subst h1; exact g
     · rw [ho] at h
       injection h with h; injection h with h1 _; subst h1
       have se : StaticEq s (s.setReg k.1 r') := StaticEq.of_setReg hdecl
-      refine ⟨g.stat.of_staticEq se, g.inv.congr_regs rfl rfl rfl ?_ ?_, g.cur⟩
+      refine ⟨g.stat.of_staticEq se, g.inv.congr_regs rfl rfl rfl ?_ ?_ ?_, g.cur⟩
       · intro o
         by_cases ho' : o = k.1
         · subst ho'; rw [setReg_same]; exact Reg.names_of_decls hdecl
@@ -2134,19 +2767,30 @@ theorem step_good (fuel : Nat) {s s' : St} {op : Op} {v : Int} (g : Good s) (ok 
           · simp [Reg.keep]
           · exact Iff.rfl
         · rw [setReg_ne _ _ ho']
+      · intro o n t h' hm
+        rw [se.kindAt]
+        by_cases ho' : o = k.1
+        · subst ho'
+          rw [setReg_same, hs] at hm
+          split at hm
+          · exact g.inv.userOK _ n t h' (List.mem_filter.mp hm).1
+          · exact g.inv.userOK _ n t h' hm
+        · rw [setReg_ne _ _ ho'] at hm
+          exact g.inv.userOK o n t h' hm
   | drop hh =>
     simp only [step] at h
     injection h with h; injection h with h1 _; subst h1
-    exact ⟨⟨g.stat.progs, g.stat.regs, g.stat.pure, g.stat.ranked, g.stat.obsKind, g.stat.slotKind, g.stat.slots⟩,
-      g.inv.congr rfl rfl rfl g.inv.curStack, g.cur⟩
+    exact ⟨⟨g.stat.regs, g.stat.pure, g.stat.ranked, g.stat.obsKind, g.stat.slotKind, g.stat.slots⟩,
+      g.inv.congr rfl rfl rfl rfl g.inv.curStack, g.cur⟩
 
 /-- declarations of the owners: distinct names, every one an Observable or a Computable -/
 def DeclsOK (decls : Nat → List Decl) : Prop :=
   ∀ o, ((decls o).map (·.name)).Nodup ∧ ∀ d ∈ decls o, d.types = [.change]
 
-theorem init_good {decls : Nat → List Decl} (hd : DeclsOK decls) : Good (init decls fun _ => []) := by
-  refine ⟨⟨fun _ => rfl, fun o => ⟨(hd o).1, (hd o).2⟩, ?_, ?_, ?_, ?_, ?_⟩, ⟨?_, ?_, ?_, ?_, ?_, ?_⟩, rfl⟩
+theorem init_good {decls : Nat → List Decl} (hd : DeclsOK decls) (progs : Nat → List Nat) : Good (init decls progs) := by
+  refine ⟨⟨fun o => ⟨(hd o).1, (hd o).2⟩, ?_, ?_, ?_, ?_, ?_⟩, ⟨?_, ?_, ?_, ?_, ?_, ?_, ?_⟩, rfl⟩
   all_goals first
+    | (intro o n t h hm; simp [init] at hm)
     | (intro c x hx; simp [init] at hx)
     | (intro c c' x x' hx; simp [init] at hx)
     | (intro c hc; simp [NoS] at hc)
